@@ -1,5 +1,7 @@
 import TruthModel.Model.LowerSem
 import TruthModel.Lemmas.LowerJumps
+import TruthModel.Lemmas.BodySim
+import TruthModel.Lemmas.RegRename
 /-
 C02 — compiling expressions and statements preserves what the script does.
 
@@ -48,6 +50,62 @@ used exactly where expected (`hb_same` in `binop_case`); removing it from the mo
 `C02_full`, `lowerCondJump_full`, `lowerTernary_full` state the whole property; what is missing is listed there
 (floats, casts, difficulty switches, ternaries nested in operands / conditions / branches, register
 assignment, whole bodies with loops).
+
+THE COMPOSITION (sections 17-20; machines in `Model/BodySem.lean`, generic part in `Lemmas/LowerShape.lean`,
+`Lemmas/BodyVM.lean`, `Lemmas/BodySim.lean`, `Lemmas/RegRename.lean`):
+
+* `lowerBody_sound`          WHOLE FLAT BODIES.  `body` is a list of source statements: declarations, `=` and the eleven
+                             assign-ops, calls with complex arguments, one ternary on the right of `=`, labels, `goto`,
+                             `if|unless (c) goto L [@ t]` for every integer condition, counting jumps, relative time labels
+                             `+n:`, scope ends (integer fragment `StmtOK`); labels defined once, jumps to labels below the
+                             compiler's label counter, `n >= 0` in `+n:`, explicit jump times not after the time label of
+                             the target (`BodyWF`).  Under every intrinsic table in which the body compiles, for every fuel
+                             and every pair of related initial states: if the source machine `runJS` (AstVm::_run on the
+                             flat list: wait-until-statement-time, first definition of a label, `time` := jump time or label
+                             time, `real_time` stamps on the log, iteration limit) terminates, the timed program-counter
+                             machine `execT` on `lowerBodyJ body` (`stepJ` per statement, waiting before instructions only)
+                             terminates with the same log (opcode, argument values, `real_time` of every call), the same
+                             value of every variable below the temp counter, and the same `time` / `real_time` once it has
+                             waited for the end time of the body (`SimRel`; `lowerBody_sound_init` spells it out from the
+                             usual start).  Forward simulation; its steps are the per-statement theorems above, transported
+                             to a source machine that agrees with the target only below the INITIAL temp counter
+                             (`stmtSim_int`; `lowerAssignJ_sound`, `lowerCallJ_sound`, `lowerCondGoto_sound_int` carry the
+                             invariant `IntStore` along), glued by `Lower.body_sim` (source pc <-> position of the fragment
+                             `Lower.frag_at`, labels `Lower.label_corr`, the timed machine inside a fragment
+                             `Lower.execFrag_reachTn`, shape of every fragment `Lower.shape_lowerStmtJ`).
+* `lowerBody_diverges`       the other direction: a source run that can make any number of steps (it exceeds every iteration
+                             limit, `runJS_fuel_of_stepsS`) is matched by a target run that runs out of every fuel.
+* `assign_preserves_exec`    COMPOSITION WITH REGISTER ASSIGNMENT (C05).  When `Regs.assign` (deep explicit scan, no
+                             parameters) succeeds on a lowered stream with labels and jumps, the stream it emits
+                             (`Lower.scanJ_of_assign`) runs in lock step with the stream before: same fuel, same log and
+                             stamps, same time and real time, same final value of every register that is mentioned or is not
+                             general-purpose - provided an annotation `D` of certainly-initialised locals satisfies
+                             `Lower.InitOK` (single operands; every local read is in `D`; `D` only grows by what a statement
+                             writes and loses a local at its `alloc`; `D` and the live map are consistent along every jump).
+                             Uses exactly `C05.Inv.inj` (two live locals never share a register) and `C05.Inv.liveGood`
+                             (nothing handed out is mentioned).  `assign_preserves_exec_straight`: for streams without jumps
+                             all hypotheses are one decidable check (`straightOK`: written before read in stream order).
+* `lowerBody_assigned_sound` both compositions: the script AFTER register assignment logs what the source logs and leaves
+                             the mentioned and the non-general-purpose registers as the source does (`InitOK` for the
+                             lowered stream is the remaining hypothesis).
+
+* `lowerSetT_sound`, `lowerCondT_sound`, `lowerBodyT_sound`, `lowerBodyT_diverges` (section 21)   THE FRAGMENT EXTENDED BY
+                             TERNARIES AT ANY DEPTH: `IntT` = integer expressions in which `c ? l : r` may occur anywhere - in
+                             operands of binary / unary operators, in conditions (of jumps and of other ternaries), in
+                             branches, in call arguments, on the right of every assign-op.  One induction on the fuel over the
+                             NINE mutually recursive functions of `Model/LowerJumps.lean` (`soundT`: `lowerSetJ`,
+                             `lowerOperandJ`, `lowerBinopJ`, `lowerUnopJ`, `lowerTernaryJ`, `lowerCondJ`, `lowerTempJ`,
+                             `lowerCmpJ`, `lowerLogicJ`), stated with the structural execution `execFrag`; the label facts come
+                             from `Lower.shapeAt`.  Only the branches the source selects have to evaluate.  `stmtSim_intT`
+                             instantiates the whole-body simulation: `lowerBodyT_sound` / `lowerBodyT_diverges` are
+                             `lowerBody_sound` / `lowerBody_diverges` for `StmtOKT` (which contains `StmtOK`:
+                             `stmtOKT_of_stmtOK`).
+
+Still NOT proved: `InitOK` for the fragments the compiler emits with labels of its own (it is not derived from the lowering);
+floats, casts, difficulty switches (`lowerCondJump_full`, `lowerTernary_full`, `C02_full` stay as stated; of
+`lowerTernary_full` the integer part - ternaries nested at will - is now `lowerSetT_sound`).  The hypothesis `BodyWF.jumpTimes` is necessary: after `goto L @ t` with `t`
+later than the time label of `L`, a compiler-generated label sets the script time back (open finding
+`script-time-ahead-of-time-labels-reset-by-compiler-label`, found by this proof and confirmed on the implementation).
 -/
 namespace TruthModel.C02
 open TruthModel TruthModel.Regs TruthModel.Lower
@@ -2387,5 +2445,2640 @@ theorem loc_order_drops_time (l : Nat) (t : Int) : jumpArgs .loc l (some t) = ju
 
 /-- with a time argument the two are different instructions (so the loss is specific to `Loc`) -/
 example : jumpArgs .locTime 3 (some 10) ≠ jumpArgs .locTime 3 none := by simp [jumpArgs]
+
+/-! ## 17. whole flat bodies: the statements -/
+
+/-- the source machine of `Model/BodySem.lean` runs the statements `runStmt` runs -/
+theorem runStmtS_eq (F : FloatOps) (diff : Nat) (m : Machine) (s : SStmt) : runStmtS F diff m s = runStmt F diff m s := by
+  cases s with
+  | decl d ty init => cases init <;> rfl
+  | _ => rfl
+
+theorem upd_agree {g0 : Nat} {σ τ : Store} (h : ∀ x, below g0 x → σ x = τ x) (n : VarName) (val : Value) :
+    ∀ x, below g0 x → upd σ n val x = upd τ n val x := by
+  intro x hx
+  by_cases hxn : x = n
+  · subst hxn; simp [upd_same]
+  · rw [upd_other _ _ hxn, upd_other _ _ hxn]; exact h x hx
+
+/-- the source statement only looks at the variables below the temp counter -/
+theorem runAssign_congr (F : FloatOps) (diff g0 : Nat) {a b b' : Machine} {v : VarRef} {op : AssignOp} {e : SExpr}
+    (hv : below g0 v.name) (hi : IntOnly e) (hb : exprBelow g0 e)
+    (hst : ∀ x, below g0 x → a.store x = b.store x) (hlog : a.log = b.log) (htime : a.time = b.time)
+    (h : runAssign F diff b v op e = .ok b') :
+    ∃ a', runAssign F diff a v op e = .ok a' ∧ (∀ x, below g0 x → a'.store x = b'.store x) ∧ a'.log = b'.log ∧
+      a'.time = b'.time := by
+  have he : evalS F diff a.store e = evalS F diff b.store e :=
+    evalS_congr F diff _ _ hi (fun x hx => hst x (uses_below hb hx))
+  have hv' : evalS F diff a.store (.var v) = evalS F diff b.store (.var v) := by simp only [evalS, hst v.name hv]
+  unfold runAssign at h ⊢
+  rw [he, hv']
+  cases hop : op.binop with
+  | none =>
+    simp only [hop] at h ⊢
+    cases hx : evalS F diff b.store e with
+    | ok x =>
+      simp only [hx, Outcome.ok.injEq] at h ⊢
+      subst h
+      exact ⟨_, rfl, upd_agree hst _ _, hlog, htime⟩
+    | err c => simp [hx] at h
+    | panic p => simp [hx] at h
+  | some bop =>
+    simp only [hop] at h ⊢
+    cases hy : evalS F diff b.store (.var v) with
+    | ok va =>
+      cases hx : evalS F diff b.store e with
+      | ok vb =>
+        simp only [hx, hy] at h ⊢
+        cases hr : binop F bop va vb with
+        | ok r =>
+          simp only [hr, Outcome.ok.injEq] at h ⊢
+          subst h
+          exact ⟨_, rfl, upd_agree hst _ _, hlog, htime⟩
+        | err c => simp [hr] at h
+        | panic p => simp [hr] at h
+      | err c => simp [hx, hy] at h
+      | panic p => simp [hx, hy] at h
+    | err c => cases hx : evalS F diff b.store e <;> simp [hx, hy] at h
+    | panic p => cases hx : evalS F diff b.store e <;> simp [hx, hy] at h
+
+theorem runCall_congr (F : FloatOps) (diff g0 : Nat) {a b b' : Machine} {opcode : Nat} {args : List SExpr}
+    (hi : ∀ e ∈ args, IntOnly e) (hb : ∀ e ∈ args, exprBelow g0 e)
+    (hst : ∀ x, below g0 x → a.store x = b.store x) (hlog : a.log = b.log) (htime : a.time = b.time)
+    (h : runCall F diff b opcode args = .ok b') :
+    ∃ a', runCall F diff a opcode args = .ok a' ∧ (∀ x, below g0 x → a'.store x = b'.store x) ∧ a'.log = b'.log ∧
+      a'.time = b'.time := by
+  have he := evalArgs_congr F diff a.store b.store g0 args hi hb hst
+  unfold runCall at h ⊢
+  rw [he]
+  cases hx : evalArgs F diff b.store args with
+  | ok vs =>
+    simp only [hx, Outcome.ok.injEq] at h ⊢
+    subst h
+    exact ⟨_, rfl, hst, by simp [hlog], htime⟩
+  | err c => simp [hx] at h
+  | panic p => simp [hx] at h
+
+theorem evalCond_congr (F : FloatOps) (diff g0 : Nat) {σ τ τ' : Store} {c : JCond} {taken : Bool}
+    (hc : CondOK g0 c) (hcv : ∀ v k, c = .predec v k → below g0 v.name)
+    (hst : ∀ x, below g0 x → σ x = τ x) (h : evalCond F diff τ c = .ok (taken, τ')) :
+    ∃ σ', evalCond F diff σ c = .ok (taken, σ') ∧ ∀ x, below g0 x → σ' x = τ' x := by
+  cases c with
+  | expr e =>
+    obtain ⟨hi, hb⟩ := hc
+    have he : evalS F diff σ e = evalS F diff τ e := evalS_congr F diff _ _ hi (fun x hx => hst x (uses_below hb hx))
+    simp only [evalCond] at h ⊢
+    rw [he]
+    repeat' split at h
+    all_goals first
+      | (cases h; done)
+      | (simp only [Outcome.ok.injEq, Prod.mk.injEq] at h; obtain ⟨rfl, rfl⟩ := h; exact ⟨σ, rfl, hst⟩)
+  | predec v k =>
+    have hvb := hcv v k rfl
+    have he : evalS F diff σ (.var v) = evalS F diff τ (.var v) := by simp only [evalS, hst v.name hvb]
+    simp only [evalCond] at h ⊢
+    rw [he]
+    repeat' split at h
+    all_goals first
+      | (cases h; done)
+      | (simp only [Outcome.ok.injEq, Prod.mk.injEq] at h; obtain ⟨rfl, rfl⟩ := h; exact ⟨_, rfl, upd_agree hst _ _⟩)
+
+
+/-! ### the statements on the target side, with the invariant `IntStore` carried along -/
+
+theorem liftCode_cons (s : LStmt) (c : List LStmt) : liftCode (s :: c) = .base s :: liftCode c := rfl
+
+theorem binop_int_result {F : FloatOps} {b : BinOp} {x y : Int32} {r : Value} (h : binop F b (.int x) (.int y) = .ok r) :
+    ∃ n, r = .int n := binopInt_int b x y r h
+
+/-- `v = e` / `v op= e` in the model with labels (its own fuel), executed as a fragment; like
+`lowerAssign_sound_partial`, and the store stays a store of integers -/
+theorem lowerAssignJ_sound (F : FloatOps) (I : JIntrinsics) (db ab diff g lg : Nat) (t : Int) (mask : Nat) (v : VarRef)
+    (op : AssignOp) (e : SExpr) (code : List JStmt) (g' lg' : Nat) (s : JM) (msrc : Machine)
+    (hm : maskOn mask diff = true) (hv : v.readTy = .int) (hvb : below g v.name) (hi : IntOnly e)
+    (hb : exprBelow g e) (hs : IntStore s.m.store)
+    (hsrc : runAssign F diff s.m v op e = .ok msrc)
+    (h : lowerAssignJ I db ab g lg t mask v op e = .ok (code, g', lg')) :
+    ∃ m', execFrag F diff .run code s = .ok (.fall, ⟨m', s.cmp⟩) ∧ (∀ x, below g x → m'.store x = msrc.store x) ∧
+      m'.log = msrc.log ∧ m'.time = msrc.time ∧ IntStore m'.store := by
+  unfold runAssign at hsrc
+  cases hbop : op.binop with
+  | none =>
+    have hop : op = .set := by cases op <;> simp [AssignOp.binop] at hbop <;> rfl
+    subst hop
+    simp only [hbop] at hsrc
+    cases hev : evalS F diff s.m.store e with
+    | ok val =>
+      simp only [hev, Outcome.ok.injEq] at hsrc
+      subst hsrc
+      simp only [lowerAssignJ] at h
+      obtain ⟨m', hex, hval, hframe, hlog, htime, hint⟩ :=
+        setJ_run F I db ab diff _ g lg t mask v e code g' lg' s val ⟨hm, hv, hvb, hi, hb, hs, hev⟩ h
+      refine ⟨m', hex, ?_, hlog, htime, hint⟩
+      intro x hx
+      by_cases hxv : x = v.name
+      · subst hxv; simp [upd_same, hval]
+      · simp [upd_other _ _ hxv, hframe x hxv hx]
+    | err c => simp [hev] at hsrc
+    | panic p => simp [hev] at hsrc
+  | some b =>
+    have hne : op ≠ .set := by intro hh; subst hh; simp [AssignOp.binop] at hbop
+    simp only [hbop, evalS_var F diff hs hv] at hsrc
+    cases hev : evalS F diff s.m.store e with
+    | err c => simp [hev] at hsrc
+    | panic p => simp [hev] at hsrc
+    | ok vb =>
+      simp only [hev] at hsrc
+      cases hr : binop F b (s.m.store v.name) vb with
+      | err c => simp [hr] at hsrc
+      | panic p => simp [hr] at hsrc
+      | ok r =>
+        simp only [hr, Outcome.ok.injEq] at hsrc
+        subst hsrc
+        obtain ⟨nv, hnv⟩ := hs v.name
+        obtain ⟨nb, rfl⟩ := evalS_int F diff s.m.store hs hi hev
+        obtain ⟨nr, rfl⟩ : ∃ n, r = .int n := by rw [hnv] at hr; exact binop_int_result hr
+        have hl : lowerAssignJ I db ab g lg t mask v op e =
+            (match e.simple? with
+            | some a => liftAtom (lowerAssignAtom I.base mask v op a) g lg
+            | none =>
+              match lowerSetJ I db ab (jumpFuel e) (g + 1) lg t mask (tmpVar g e.temp.tmpTy) e.temp.tmpExpr with
+              | .ok (c1, g1, lg1) =>
+                match lowerAssignAtom I.base mask v op (.loc g e.temp.readTy) with
+                | .ok c2 => .ok (.base (.alloc g e.temp.tmpTy) :: c1 ++ liftCode c2 ++ [.base (.free g)], g1, lg1)
+                | .err x => .err x
+                | .panic x => .panic x
+              | .err x => .err x
+              | .panic x => .panic x) := by
+          cases op <;> first | exact absurd rfl hne | rfl
+        rw [hl] at h
+        cases hsim : e.simple? with
+        | some a =>
+          simp only [hsim] at h
+          cases hat : lowerAssignAtom I.base mask v op a with
+          | err x => simp [hat, liftAtom] at h
+          | panic x => simp [hat, liftAtom] at h
+          | ok c =>
+            simp only [hat, liftAtom, Outcome.ok.injEq, Prod.mk.injEq] at h
+            obtain ⟨rfl, rfl, rfl⟩ := h
+            obtain ⟨hatom, hval, _⟩ := simple_spec F diff hi hsim
+            have hva := hval s.m.store hs
+            rw [hev] at hva
+            simp only [Outcome.ok.injEq] at hva
+            rw [hva] at hr
+            have hex := exec_opAtom F I.base diff mask v op b a c s.m (.int nr) hbop hm hs hv hatom hr hat
+            exact ⟨_, execFrag_lift F diff s.cmp c s.m _ hex, fun _ _ => rfl, rfl, rfl, intStore_upd hs _ _⟩
+        | none =>
+          simp only [hsim] at h
+          obtain ⟨ht1, ht2, ht3⟩ := intOnly_temp hi
+          simp only [ht1, ht2, ht3] at h
+          cases hl1 : lowerSetJ I db ab (jumpFuel e) (g + 1) lg t mask (tmpVar g .int) e with
+          | err x => simp [hl1] at h
+          | panic x => simp [hl1] at h
+          | ok p =>
+            obtain ⟨c1, g1, lg1⟩ := p
+            simp only [hl1] at h
+            cases hat : lowerAssignAtom I.base mask v op (.loc g .int) with
+            | err x => simp [hat] at h
+            | panic x => simp [hat] at h
+            | ok c2 =>
+              simp only [hat, Outcome.ok.injEq, Prod.mk.injEq] at h
+              obtain ⟨rfl, rfl, rfl⟩ := h
+              obtain ⟨_, _, _, c1', rfl, hl1'⟩ := setJ_shape I db ab _ (g + 1) lg t mask (tmpVar g .int) e c1 g1 lg1 hi hl1
+              obtain ⟨_, m1, hex1, hval1, hframe1, hlog1, htime1, hint1⟩ :=
+                lowerSet_sound F I.base db ab diff _ (g + 1) mask (tmpVar g .int) e c1' g1 s.m (.int nb)
+                  ⟨hm, rfl, Nat.lt_succ_self g, hi, exprBelow_mono (Nat.le_succ g) hb, hs, hev⟩ hl1'
+              have hvsame : m1.store v.name = s.m.store v.name :=
+                hframe1 _ (ne_of_below hvb) (below_mono (Nat.le_succ g) hvb)
+              have hr1 : binop F b (m1.store v.name) (atomValue m1.store (.loc g .int)) = .ok (.int nr) := by
+                rw [hvsame]; simp only [atomValue]; rw [show m1.store (.loc g) = .int nb from hval1]; exact hr
+              have hex2 := exec_opAtom F I.base diff mask v op b (.loc g .int) c2 m1 (.int nr) hbop hm hint1 hv (.loc g) hr1 hat
+              have hcode : (JStmt.base (.alloc g .int) :: liftCode c1' ++ liftCode c2 ++ [JStmt.base (.free g)]) =
+                  liftCode (.alloc g .int :: c1' ++ c2 ++ [.free g]) := by
+                simp [liftCode]
+              rw [hcode]
+              refine ⟨{ m1 with store := upd m1.store v.name (.int nr) }, ?_, ?_, hlog1, htime1, intStore_upd hint1 _ _⟩
+              · apply execFrag_lift
+                rw [List.cons_append, List.cons_append, exec_alloc]
+                exact exec_append_ok (exec_append_ok hex1 hex2) rfl
+              · intro x hx
+                show upd m1.store v.name (.int nr) x = upd s.m.store v.name (.int nr) x
+                by_cases hxv : x = v.name
+                · subst hxv; simp [upd_same]
+                · rw [upd_other _ _ hxv, upd_other _ _ hxv]
+                  exact hframe1 x (ne_of_below hx) (below_mono (Nat.le_succ g) hx)
+
+/-- arguments of a call in the model with labels: straight-line code, as `lowerArgs_sound` describes it -/
+theorem lowerArgsJ_sound (F : FloatOps) (I : JIntrinsics) (db ab diff : Nat) (t : Int) (mask : Nat) (hm : maskOn mask diff = true) :
+    ∀ (args : List SExpr) (g lg : Nat) (cJ : List JStmt) (as : List Arg) (ds : List Def) (g' lg' : Nat) (m : Machine)
+      (vals : List Value),
+      (∀ e ∈ args, IntOnly e) → (∀ e ∈ args, exprBelow g e) → IntStore m.store →
+      evalArgs F diff m.store args = .ok vals →
+      lowerArgsJ I db ab t mask g lg args = .ok (cJ, as, ds, g', lg') →
+      ∃ c, cJ = liftCode c ∧ g ≤ g' ∧ ∃ m', exec F diff m c = .ok m' ∧ readArgs F diff m'.store as = .ok vals ∧
+        (∀ x, below g x → m'.store x = m.store x) ∧ m'.log = m.log ∧ m'.time = m.time ∧ IntStore m'.store
+  | [], g, lg, cJ, as, ds, g', lg', m, vals, _, _, hs, hev, h => by
+    simp only [lowerArgsJ, Outcome.ok.injEq, Prod.mk.injEq] at h
+    obtain ⟨rfl, rfl, rfl, rfl, rfl⟩ := h
+    simp only [evalArgs, Outcome.ok.injEq] at hev
+    subst hev
+    exact ⟨[], rfl, Nat.le_refl _, m, rfl, rfl, fun _ _ => rfl, rfl, rfl, hs⟩
+  | e :: es, g, lg, cJ, as, ds, g', lg', m, vals, hi, hb, hs, hev, h => by
+    obtain ⟨v, vs, rfl, hev1, hev2⟩ := evalArgs_cons_inv hev
+    have hie := hi e (by simp)
+    have hbe := hb e (by simp)
+    have hies : ∀ e' ∈ es, IntOnly e' := fun e' he => hi e' (by simp [he])
+    have hbes : ∀ e' ∈ es, exprBelow g e' := fun e' he => hb e' (by simp [he])
+    simp only [lowerArgsJ] at h
+    cases hsim : e.simple? with
+    | some a =>
+      simp only [hsim] at h
+      cases hrest : lowerArgsJ I db ab t mask g lg es with
+      | err x => simp [hrest] at h
+      | panic x => simp [hrest] at h
+      | ok r =>
+        obtain ⟨c', as', ds', g1, lg1⟩ := r
+        simp only [hrest, Outcome.ok.injEq, Prod.mk.injEq] at h
+        obtain ⟨rfl, rfl, rfl, rfl, rfl⟩ := h
+        obtain ⟨c, rfl, hmono, m', hex, hread, hframe, hlog, htime, hint⟩ :=
+          lowerArgsJ_sound F I db ab diff t mask hm es g lg c' as' ds' g1 lg1 m vs hies hbes hs hev2 hrest
+        obtain ⟨hatom, hval, huse⟩ := simple_spec F diff hie hsim
+        have hva := hval m.store hs
+        rw [hev1] at hva
+        simp only [Outcome.ok.injEq] at hva
+        have hra : readArg F diff m'.store a = .ok v := by
+          rw [readArg_intAtom F diff hint hatom, hva]
+          congr 1
+          exact atomValue_congr (fun y hy => hframe y (uses_below hbe (huse y hy)))
+        exact ⟨c, rfl, hmono, m', hex, by simp only [readArgs, hra, hread], hframe, hlog, htime, hint⟩
+    | none =>
+      simp only [hsim] at h
+      obtain ⟨ht1, ht2, ht3⟩ := intOnly_temp hie
+      simp only [ht1, ht2, ht3] at h
+      cases hl1 : lowerSetJ I db ab (jumpFuel e) (g + 1) lg t mask (tmpVar g .int) e with
+      | err x => simp [hl1] at h
+      | panic x => simp [hl1] at h
+      | ok p =>
+        obtain ⟨c1, g1, lg1⟩ := p
+        simp only [hl1] at h
+        cases hrest : lowerArgsJ I db ab t mask g1 lg1 es with
+        | err x => simp [hrest] at h
+        | panic x => simp [hrest] at h
+        | ok r =>
+          obtain ⟨c', as', ds', g2, lg2⟩ := r
+          simp only [hrest, Outcome.ok.injEq, Prod.mk.injEq] at h
+          obtain ⟨rfl, rfl, rfl, rfl, rfl⟩ := h
+          obtain ⟨_, _, _, c1', rfl, hl1'⟩ := setJ_shape I db ab _ (g + 1) lg t mask (tmpVar g .int) e c1 g1 lg1 hie hl1
+          obtain ⟨hmono1, m1, hex1, hval1, hframe1, hlog1, htime1, hint1⟩ :=
+            lowerSet_sound F I.base db ab diff _ (g + 1) mask (tmpVar g .int) e c1' g1 m v
+              ⟨hm, rfl, Nat.lt_succ_self g, hie, exprBelow_mono (Nat.le_succ g) hbe, hs, hev1⟩ hl1'
+          have hg1 : g ≤ g1 := Nat.le_trans (Nat.le_succ g) hmono1
+          have hsame : ∀ x, below g x → m1.store x = m.store x :=
+            fun x hx => hframe1 x (ne_of_below hx) (below_mono (Nat.le_succ g) hx)
+          have hev2' : evalArgs F diff m1.store es = .ok vs := by
+            rw [evalArgs_congr F diff m1.store m.store g es hies hbes hsame]; exact hev2
+          obtain ⟨c2, rfl, hmono2, m', hex2, hread, hframe2, hlog2, htime2, hint2⟩ :=
+            lowerArgsJ_sound F I db ab diff t mask hm es g1 lg1 c' as' ds' g2 lg2 m1 vs hies
+              (fun e' he => exprBelow_mono hg1 (hbes e' he)) hint1 hev2' hrest
+          have hkeep : m'.store (.loc g) = v := by
+            rw [hframe2 (.loc g) (Nat.lt_of_lt_of_le (Nat.lt_succ_self g) hmono1)]; exact hval1
+          have hra : readArg F diff m'.store (.loc g .int) = .ok v := by
+            rw [readArg_intAtom F diff hint2 (.loc g)]; simp only [atomValue, hkeep]
+          refine ⟨.alloc g .int :: c1' ++ c2, by simp [liftCode], Nat.le_trans hg1 hmono2, m', ?_,
+            by simp only [readArgs, hra, hread], ?_, ?_, ?_, hint2⟩
+          · rw [List.cons_append, exec_alloc]; exact exec_append_ok hex1 hex2
+          · intro x hx; rw [hframe2 x (below_mono hg1 hx), hsame x hx]
+          · rw [hlog2, hlog1]
+          · rw [htime2, htime1]
+
+/-- an instruction call in the model with labels, executed as a fragment -/
+theorem lowerCallJ_sound (F : FloatOps) (I : JIntrinsics) (db ab diff g lg : Nat) (t : Int) (mask opcode : Nat)
+    (args : List SExpr) (code : List JStmt) (g' lg' : Nat) (s : JM) (msrc : Machine)
+    (hm : maskOn mask diff = true) (hi : ∀ e ∈ args, IntOnly e) (hb : ∀ e ∈ args, exprBelow g e)
+    (hs : IntStore s.m.store) (hsrc : runCall F diff s.m opcode args = .ok msrc)
+    (h : lowerCallJ I db ab g lg t mask opcode args = .ok (code, g', lg')) :
+    ∃ m', execFrag F diff .run code s = .ok (.fall, ⟨m', s.cmp⟩) ∧ (∀ x, below g x → m'.store x = msrc.store x) ∧
+      m'.log = msrc.log ∧ m'.time = msrc.time ∧ IntStore m'.store := by
+  unfold runCall at hsrc
+  cases hev : evalArgs F diff s.m.store args with
+  | err c => simp [hev] at hsrc
+  | panic p => simp [hev] at hsrc
+  | ok vals =>
+    simp only [hev, Outcome.ok.injEq] at hsrc
+    subst hsrc
+    unfold lowerCallJ at h
+    cases hl : lowerArgsJ I db ab t mask g lg args with
+    | err x => simp [hl] at h
+    | panic x => simp [hl] at h
+    | ok r =>
+      obtain ⟨cJ, as, ds, g1, lg1⟩ := r
+      simp only [hl, Outcome.ok.injEq, Prod.mk.injEq] at h
+      obtain ⟨rfl, rfl, rfl⟩ := h
+      obtain ⟨c, rfl, _, m', hex, hread, hframe, hlog, htime, hint⟩ :=
+        lowerArgsJ_sound F I db ab diff t mask hm args g lg cJ as ds g1 lg1 s.m vals hi hb hs hev hl
+      have hins : exec F diff m' [.instr ⟨mask, .plain opcode, as⟩] =
+          .ok { m' with log := m'.log ++ [(opcode, vals)] } := by
+        simp [exec, execStmt, execInstr, hm, hread]
+      have hcode : liftCode c ++ [JStmt.base (.instr ⟨mask, .plain opcode, as⟩)] ++ liftCode (ds.reverse.map .free) =
+          liftCode (c ++ [.instr ⟨mask, .plain opcode, as⟩] ++ ds.reverse.map .free) := by
+        simp [liftCode]
+      rw [hcode]
+      refine ⟨{ m' with log := m'.log ++ [(opcode, vals)] }, ?_, hframe, ?_, htime, hint⟩
+      · apply execFrag_lift
+        exact exec_append_ok (exec_append_ok hex hins) (exec_map_free F diff _ _)
+      · show m'.log ++ [(opcode, vals)] = s.m.log ++ [(opcode, vals)]
+        rw [hlog]
+
+/-- `if|unless (c) goto L @ t` as `lowerCondJump_sound`, and the store stays a store of integers -/
+theorem lowerCondGoto_sound_int (F : FloatOps) (I : JIntrinsics) (db ab diff g lg : Nat) (t : Int) (mask : Nat) (kw : Kw)
+    (c : JCond) (tgt : Goto) (code : List JStmt) (g' lg' : Nat) (s : JM) (taken : Bool) (σ' : Store)
+    (hm : maskOn mask diff = true) (hc : CondOK g c) (hs : IntStore s.m.store) (ht : s.m.time = t) (htl : tgt.l < lg)
+    (hsrc : evalCond F diff s.m.store c = .ok (taken, σ'))
+    (h : lowerCondGoto I db ab g lg t mask kw c tgt = .ok (code, g', lg')) :
+    ∃ s', execFrag F diff .run code s = .ok (exitIf (kw.takes taken) tgt, s') ∧
+      (∀ x, below g x → s'.m.store x = σ' x) ∧ s'.m.log = s.m.log ∧ s'.m.time = s.m.time ∧ IntStore s'.m.store := by
+  cases c with
+  | expr e =>
+    obtain ⟨hi, hb⟩ := hc
+    simp only [evalCond] at hsrc
+    cases hev : evalS F diff s.m.store e with
+    | err x => simp [hev] at hsrc
+    | panic x => simp [hev] at hsrc
+    | ok val =>
+      obtain ⟨v, rfl⟩ := evalS_int F diff s.m.store hs hi hev
+      simp only [hev, Outcome.ok.injEq, Prod.mk.injEq] at hsrc
+      obtain ⟨rfl, rfl⟩ := hsrc
+      simp only [lowerCondGoto] at h
+      have S := (condSoundAt F I db ab diff (jumpFuel e)).1 g lg t mask kw e tgt code g' lg' s v hm hi hb hs hev ht htl h
+      exact S.run
+  | predec v k =>
+    have hv : v.readTy = .int := hc
+    simp only [evalCond, evalS_var F diff hs hv] at hsrc
+    obtain ⟨n, hn⟩ := hs v.name
+    simp only [hn, Outcome.ok.injEq, Prod.mk.injEq] at hsrc
+    obtain ⟨rfl, rfl⟩ := hsrc
+    simp only [lowerCondGoto] at h
+    cases hl : lowerCountJmp I lg t mask kw v k tgt with
+    | err x => simp [hl] at h
+    | panic x => simp [hl] at h
+    | ok r =>
+      obtain ⟨code', lg1⟩ := r
+      simp only [hl, Outcome.ok.injEq, Prod.mk.injEq] at h
+      obtain ⟨rfl, rfl, rfl⟩ := h
+      obtain ⟨_, _, _, s', hex, hst, hlog, htime⟩ :=
+        lowerCountJmp_sound F I diff lg t mask kw v k tgt code' lg1 s n hm hv hs hn ht htl hl
+      exact ⟨s', hex, fun x _ => by rw [hst], hlog, htime, by rw [hst]; exact intStore_upd hs _ _⟩
+
+
+/-! ### the fragment of a statement simulates the statement (`Lower.StmtSim`) -/
+
+/-- right-hand sides of the proved fragment: an integer expression, or (for `=`) one ternary over integer expressions -/
+def RhsOK (g0 : Nat) (op : AssignOp) (e : SExpr) : Prop :=
+  (IntOnly e ∧ exprBelow g0 e) ∨
+  (op = .set ∧ ∃ c l r, e = .ternary c l r ∧ (IntOnly c ∧ IntOnly l ∧ IntOnly r) ∧
+    (exprBelow g0 c ∧ exprBelow g0 l ∧ exprBelow g0 r))
+
+/-- the statements of the proved fragment: integer destinations below the temp counter, integer expressions over
+variables below the temp counter (`IntOnly`, `exprBelow`), one ternary on the right of `=`; every condition of
+`CondOK`, the counter of a counting jump below the temp counter; labels, gotos, time labels, scope ends -/
+def StmtOK (g0 : Nat) : JSStmt → Prop
+  | .base (.decl _ _ none) => True
+  | .base (.decl d ty (some e)) => ty = .int ∧ d < g0 ∧ RhsOK g0 .set e
+  | .base (.assign op v e) => v.readTy = .int ∧ below g0 v.name ∧ RhsOK g0 op e
+  | .base (.call _ args) => ∀ e ∈ args, IntOnly e ∧ exprBelow g0 e
+  | .base (.scopeEnd _) => True
+  | .base .other => False
+  | .label _ => True
+  | .goto _ => True
+  | .condGoto _ c _ => CondOK g0 c ∧ ∀ v k, c = .predec v k → below g0 v.name
+  | .wait _ => True
+
+theorem evalS_congr_rhs (F : FloatOps) (diff g0 : Nat) {σ τ : Store} {op : AssignOp} {e : SExpr} (hr : RhsOK g0 op e)
+    (hst : ∀ x, below g0 x → σ x = τ x) : evalS F diff σ e = evalS F diff τ e := by
+  rcases hr with ⟨hi, hb⟩ | ⟨_, c, l, r, rfl, ⟨hic, hil, hir⟩, ⟨hbc, hbl, hbr⟩⟩
+  · exact evalS_congr F diff _ _ hi (fun x hx => hst x (uses_below hb hx))
+  · have h1 := evalS_congr F diff σ τ hic (fun x hx => hst x (uses_below hbc hx))
+    have h2 := evalS_congr F diff σ τ hil (fun x hx => hst x (uses_below hbl hx))
+    have h3 := evalS_congr F diff σ τ hir (fun x hx => hst x (uses_below hbr hx))
+    simp only [evalS, h1, h2, h3]
+
+theorem runAssign_congr_rhs (F : FloatOps) (diff g0 : Nat) {a b b' : Machine} {v : VarRef} {op : AssignOp} {e : SExpr}
+    (hv : below g0 v.name) (hr : RhsOK g0 op e)
+    (hst : ∀ x, below g0 x → a.store x = b.store x) (hlog : a.log = b.log) (htime : a.time = b.time)
+    (h : runAssign F diff b v op e = .ok b') :
+    ∃ a', runAssign F diff a v op e = .ok a' ∧ (∀ x, below g0 x → a'.store x = b'.store x) ∧ a'.log = b'.log ∧
+      a'.time = b'.time := by
+  rcases hr with ⟨hi, hb⟩ | ⟨rfl, hrest⟩
+  · exact runAssign_congr F diff g0 hv hi hb hst hlog htime h
+  · have he : evalS F diff a.store e = evalS F diff b.store e := evalS_congr_rhs F diff g0 (Or.inr ⟨rfl, hrest⟩) hst
+    simp only [runAssign, AssignOp.binop] at h ⊢
+    rw [he]
+    cases hx : evalS F diff b.store e with
+    | ok x =>
+      simp only [hx, Outcome.ok.injEq] at h ⊢
+      subst h
+      exact ⟨_, rfl, upd_agree hst _ _, hlog, htime⟩
+    | err c => simp [hx] at h
+    | panic p => simp [hx] at h
+
+/-- an assignment statement of the fragment, from any source machine that agrees with the target below `g0` -/
+theorem assign_sim (F : FloatOps) (I : JIntrinsics) (db ab diff g0 g lg : Nat) (t : Int) (mask : Nat) (v : VarRef) (op : AssignOp)
+    (e : SExpr) (code : List JStmt) (g' lg' : Nat) (hm : maskOn mask diff = true) (hg : g0 ≤ g)
+    (hv : v.readTy = .int) (hvb : below g0 v.name) (hrhs : RhsOK g0 op e)
+    (h : lowerAssignJ I db ab g lg t mask v op e = .ok (code, g', lg'))
+    (j : JM) (m m' : Machine) (hinv : IntStore j.m.store) (htj : j.m.time = t)
+    (hst : ∀ x, below g0 x → j.m.store x = m.store x) (hlog : j.m.log = m.log) (htm : m.time = t)
+    (hrun : runAssign F diff m v op e = .ok m') :
+    ∃ j', execFrag F diff .run code j = .ok (.fall, j') ∧ IntStore j'.m.store ∧
+      (∀ x, below g0 x → j'.m.store x = m'.store x) ∧ j'.m.log = m'.log ∧ j'.m.time = t := by
+  obtain ⟨a', hra, hsta, hloga, htimea⟩ := runAssign_congr_rhs F diff g0 hvb hrhs hst hlog (by rw [htj, htm]) hrun
+  have hm't : m'.time = t := by rw [runAssign_time hrun, htm]
+  rcases hrhs with ⟨hi, hb⟩ | ⟨rfl, c, l, r, rfl, ⟨hic, hil, hir⟩, ⟨hbc, hbl, hbr⟩⟩
+  · obtain ⟨m1, hex, hst1, hlog1, htime1, hint1⟩ :=
+      lowerAssignJ_sound F I db ab diff g lg t mask v op e code g' lg' j a' hm hv (below_mono hg hvb) hi (exprBelow_mono hg hb) hinv hra h
+    refine ⟨⟨m1, j.cmp⟩, hex, hint1, ?_, by rw [hlog1, hloga], by rw [htime1, htimea, hm't]⟩
+    intro x hx
+    rw [hst1 x (below_mono hg hx)]; exact hsta x hx
+  · simp only [runAssign, AssignOp.binop] at hra
+    cases hev : evalS F diff j.m.store (.ternary c l r) with
+    | err x => simp [hev] at hra
+    | panic x => simp [hev] at hra
+    | ok val =>
+      simp only [hev, Outcome.ok.injEq] at hra
+      subst hra
+      simp only [lowerAssignJ] at h
+      obtain ⟨_, _, _, _, s', hex, hval, hframe, hlog1, htime1, hint1⟩ :=
+        lowerTernarySet_sound F I db ab diff _ g lg t mask v c l r code g' lg' j val hm hv (below_mono hg hvb) hic hil hir
+          (exprBelow_mono hg hbc) (exprBelow_mono hg hbl) (exprBelow_mono hg hbr) hinv htj hev h
+      refine ⟨s', hex, hint1, ?_, by rw [hlog1]; exact hloga, by rw [htime1, htj]⟩
+      intro x hx
+      rw [← hsta x hx]
+      by_cases hxv : x = v.name
+      · subst hxv; simp [upd_same, hval]
+      · simp [upd_other _ _ hxv, hframe x hxv (below_mono hg hx)]
+
+theorem exitOf_if (b : Bool) (g : Goto) : Lower.exitOf (if b then some g else none) = exitIf b g := by
+  cases b <;> rfl
+
+/-- **stmtSim_int**: every statement of the fragment is simulated by its fragment (the per-statement theorems above,
+transported to a source machine that agrees with the target below the INITIAL temp counter `g0`) -/
+theorem stmtSim_int (F : FloatOps) (I : JIntrinsics) (db ab diff mask g0 lg0 : Nat) (hm : maskOn mask diff = true)
+    {st : JSStmt} (hok : StmtOK g0 st) (htl : ∀ tg, jumpOfS st = some tg → tg.l < lg0)
+    {g lg : Nat} {t : Int} {code : List JStmt} {g' lg' : Nat} (hg : g0 ≤ g) (hlg : lg0 ≤ lg)
+    (h : lowerStmtJ I db ab g lg t mask st = .ok (code, g', lg')) :
+    StmtSim F diff (below g0) IntStore st t code := by
+  intro j m m' fl hinv htj hst hlog htm hrun
+  cases st with
+  | base s =>
+    simp only [runStmtJ] at hrun
+    cases hs : runStmtS F diff m s with
+    | err x => simp [hs] at hrun
+    | panic x => simp [hs] at hrun
+    | ok m1 =>
+      simp only [hs, Outcome.ok.injEq, Prod.mk.injEq] at hrun
+      obtain ⟨rfl, rfl⟩ := hrun
+      cases s with
+      | decl d ty init =>
+        cases init with
+        | none =>
+          simp only [lowerStmtJ, Outcome.ok.injEq, Prod.mk.injEq] at h
+          obtain ⟨rfl, _, _⟩ := h
+          simp only [runStmtS, Outcome.ok.injEq] at hs
+          subst hs
+          exact ⟨j, by simp [execFrag, stepJ, execStmt, Lower.exitOf], hinv, hst, hlog, htj⟩
+        | some e =>
+          obtain ⟨rfl, hd, hrhs⟩ := hok
+          simp only [lowerStmtJ] at h
+          cases h1 : lowerAssignJ I db ab g lg t mask ⟨.loc d, none, .int⟩ .set e with
+          | err x => simp [h1] at h
+          | panic x => simp [h1] at h
+          | ok r =>
+            obtain ⟨c, g1, lg1⟩ := r
+            simp only [h1, Outcome.ok.injEq, Prod.mk.injEq] at h
+            obtain ⟨rfl, _, _⟩ := h
+            simp only [runStmtS] at hs
+            obtain ⟨j', hex, h2, h3, h4, h5⟩ := assign_sim F I db ab diff g0 g lg t mask ⟨.loc d, none, .int⟩ .set e c g1 lg1 hm hg rfl hd hrhs
+              h1 j m m1 hinv htj hst hlog htm hs
+            exact ⟨j', by simpa [execFrag, stepJ, execStmt, Lower.exitOf] using hex, h2, h3, h4, h5⟩
+      | assign op v e =>
+        obtain ⟨hv, hvb, hrhs⟩ := hok
+        simp only [lowerStmtJ] at h
+        simp only [runStmtS] at hs
+        exact assign_sim F I db ab diff g0 g lg t mask v op e code g' lg' hm hg hv hvb hrhs h j m m1 hinv htj hst hlog htm hs
+      | call opcode args =>
+        have hi : ∀ e ∈ args, IntOnly e := fun e he => (hok e he).1
+        have hb : ∀ e ∈ args, exprBelow g0 e := fun e he => (hok e he).2
+        simp only [lowerStmtJ] at h
+        simp only [runStmtS] at hs
+        obtain ⟨a', hra, hsta, hloga, htimea⟩ := runCall_congr F diff g0 hi hb hst hlog (by rw [htj, htm]) hs
+        obtain ⟨m2, hex, hst2, hlog2, htime2, hint2⟩ :=
+          lowerCallJ_sound F I db ab diff g lg t mask opcode args code g' lg' j a' hm hi (fun e he => exprBelow_mono hg (hb e he)) hinv hra h
+        refine ⟨⟨m2, j.cmp⟩, hex, hint2, ?_, by rw [hlog2, hloga], ?_⟩
+        · intro x hx; rw [hst2 x (below_mono hg hx)]; exact hsta x hx
+        · have : m1.time = m.time := by
+            simp only [runCall] at hs
+            split at hs
+            · simp only [Outcome.ok.injEq] at hs; subst hs; rfl
+            · cases hs
+            · cases hs
+          rw [htime2, htimea, this, htm]
+      | scopeEnd d =>
+        simp only [lowerStmtJ, Outcome.ok.injEq, Prod.mk.injEq] at h
+        obtain ⟨rfl, _, _⟩ := h
+        simp only [runStmtS, Outcome.ok.injEq] at hs
+        subst hs
+        exact ⟨j, by simp [execFrag, stepJ, execStmt, Lower.exitOf], hinv, hst, hlog, htj⟩
+      | other => exact hok.elim
+  | label l =>
+    simp only [lowerStmtJ, Outcome.ok.injEq, Prod.mk.injEq] at h
+    obtain ⟨rfl, _, _⟩ := h
+    simp only [runStmtJ, Outcome.ok.injEq, Prod.mk.injEq] at hrun
+    obtain ⟨rfl, rfl⟩ := hrun
+    exact ⟨j, by simp [execFrag, stepJ, Lower.exitOf], hinv, hst, hlog, htj⟩
+  | goto tg =>
+    simp only [lowerStmtJ] at h
+    cases hj : lowerJmp I mask tg with
+    | err x => simp [hj] at h
+    | panic x => simp [hj] at h
+    | ok c =>
+      have := lowerJmp_ok hj
+      subst this
+      simp only [hj, Outcome.ok.injEq, Prod.mk.injEq] at h
+      obtain ⟨rfl, _, _⟩ := h
+      simp only [runStmtJ, Outcome.ok.injEq, Prod.mk.injEq] at hrun
+      obtain ⟨rfl, rfl⟩ := hrun
+      exact ⟨j, by simp [execFrag, stepJ, hm, Lower.exitOf], hinv, hst, hlog, htj⟩
+  | condGoto kw c tg =>
+    obtain ⟨hc, hcv⟩ := hok
+    simp only [lowerStmtJ] at h
+    simp only [runStmtJ] at hrun
+    cases hev : evalCond F diff m.store c with
+    | err x => simp [hev] at hrun
+    | panic x => simp [hev] at hrun
+    | ok r =>
+      obtain ⟨taken, τ'⟩ := r
+      simp only [hev, Outcome.ok.injEq, Prod.mk.injEq] at hrun
+      obtain ⟨rfl, rfl⟩ := hrun
+      obtain ⟨σ', hevj, hσ⟩ := evalCond_congr F diff g0 hc hcv hst hev
+      have htl' : tg.l < lg := Nat.lt_of_lt_of_le (htl tg rfl) hlg
+      have hcg : CondOK g c := by
+        cases c with
+        | expr e => exact ⟨hc.1, exprBelow_mono hg hc.2⟩
+        | predec v k => exact hc
+      obtain ⟨s', hex, hst', hlog', htime', hint'⟩ :=
+        lowerCondGoto_sound_int F I db ab diff g lg t mask kw c tg code g' lg' j taken σ' hm hcg hinv htj htl' hevj h
+      refine ⟨s', by rw [exitOf_if]; exact hex, hint', ?_, by rw [hlog']; exact hlog, by rw [htime', htj]⟩
+      intro x hx
+      rw [hst' x (below_mono hg hx)]; exact hσ x hx
+  | wait n =>
+    simp only [lowerStmtJ, Outcome.ok.injEq, Prod.mk.injEq] at h
+    obtain ⟨rfl, _, _⟩ := h
+    simp only [runStmtJ, Outcome.ok.injEq, Prod.mk.injEq] at hrun
+    obtain ⟨rfl, rfl⟩ := hrun
+    exact ⟨j, by simp [execFrag, Lower.exitOf], hinv, hst, hlog, htj⟩
+
+/-! ## 18. whole flat bodies: the composition -/
+
+/-- **lowerBody_sound** (C02 for whole flat bodies, before register assignment).  `body` is a flat list of source
+statements - declarations, `=` and the eleven assign-ops, instruction calls with complex arguments, labels, `goto`,
+`if|unless (c) goto L [@ t]` for every integer condition, counting jumps, relative time labels, scope ends; integer
+fragment `StmtOK`; labels defined once, jumps to labels below the compiler's label counter, time labels that do not go
+backwards, explicit jump times not after the time of the target label (`BodyWF`).  For EVERY intrinsic table in which
+the body compiles, every difficulty the statement mask is on, every fuel and every pair of initial states related by
+`SimRel` (same observable variables, integer store, same time / real time once waited for the first statement):
+if the source machine `runJS` (AstVm on the source) terminates, then the timed program-counter machine `execT` on
+`lowerBodyJ body` (AstVm on the raised compiled script) terminates, having logged the same calls - opcode, argument
+values, and the same `real_time` stamp for every call - with every variable below the temp counter (every register,
+every user local) holding the same value, and with the same `time` and `real_time` once it has waited for the time
+at the end of the body (the compiled script never waits for a trailing time label). -/
+theorem lowerBody_sound (F : FloatOps) (I : JIntrinsics) (db ab diff mask g0 lg0 : Nat) (t0 : Int) (body : List JSStmt)
+    (P : List (Int × JStmt)) (hm : maskOn mask diff = true) (hok : ∀ st ∈ body, StmtOK g0 st) (wf : BodyWF lg0 t0 body)
+    (hL : lowerBodyJ I db ab mask g0 lg0 t0 body = .ok P)
+    (S0 : VM) (U0 : TVM) (hinit : SimRel (below g0) IntStore (timeAt t0 body 0) S0 U0)
+    (fuel : Nat) (Sf : VM) (hrun : runJS F diff (stampBody t0 body) fuel 0 S0 = .ok Sf) :
+    ∃ fuel' Uf, execT F diff P fuel' 0 U0 = .ok Uf ∧ SimRel (below g0) IntStore (endTime t0 body) Sf Uf := by
+  have hsim : BodySim F diff (below g0) IntStore I db ab mask g0 lg0 body := by
+    intro st hst g lg t code g' lg' hg hlg h
+    exact stmtSim_int F I db ab diff mask g0 lg0 hm (hok st hst) (fun tg htg => wf.targetsLt st hst tg htg) hg hlg h
+  obtain ⟨Uf, hreach, hR⟩ := body_sim hL wf hsim fuel 0 S0 U0 Sf hrun hinit
+  have h0 : fragPos I db ab mask g0 lg0 t0 body 0 = 0 := by cases body <;> rfl
+  rw [h0] at hreach
+  obtain ⟨fuel', hf⟩ := execT_of_reachT hreach
+  exact ⟨fuel', Uf, hf, hR⟩
+
+/-- the usual start: both machines at time 0 with empty logs from the same store of integers -/
+theorem simRel_init (g0 : Nat) (T : Int) (σ : Store) (hσ : IntStore σ) (hT : 0 ≤ T) :
+    SimRel (below g0) IntStore T ⟨⟨σ, [], 0⟩, 0, []⟩ ⟨⟨⟨σ, [], 0⟩, 0, []⟩, none⟩ :=
+  ⟨rfl, rfl, rfl, rfl, fun _ _ => rfl, hσ, hT⟩
+
+/-- `lowerBody_sound` from the usual start, spelled out: same log, same stamps, same variables below the temp
+counter; same time and real time after waiting for the end of the body -/
+theorem lowerBody_sound_init (F : FloatOps) (I : JIntrinsics) (db ab diff mask g0 lg0 : Nat) (body : List JSStmt)
+    (P : List (Int × JStmt)) (hm : maskOn mask diff = true) (hok : ∀ st ∈ body, StmtOK g0 st) (wf : BodyWF lg0 0 body)
+    (hL : lowerBodyJ I db ab mask g0 lg0 0 body = .ok P) (σ : Store) (hσ : IntStore σ)
+    (fuel : Nat) (Sf : VM) (hrun : runJS F diff (stampBody 0 body) fuel 0 ⟨⟨σ, [], 0⟩, 0, []⟩ = .ok Sf) :
+    ∃ fuel' Uf, execT F diff P fuel' 0 ⟨⟨⟨σ, [], 0⟩, 0, []⟩, none⟩ = .ok Uf ∧
+      Uf.vm.m.log = Sf.m.log ∧ Uf.vm.stamps = Sf.stamps ∧ (∀ x, below g0 x → Uf.vm.m.store x = Sf.m.store x) ∧
+      (Uf.vm.waitTo (endTime 0 body)).m.time = (Sf.waitTo (endTime 0 body)).m.time ∧
+      (Uf.vm.waitTo (endTime 0 body)).real = (Sf.waitTo (endTime 0 body)).real := by
+  obtain ⟨fuel', Uf, hf, hR⟩ := lowerBody_sound F I db ab diff mask g0 lg0 0 body P hm hok wf hL _ _
+    (simRel_init g0 _ σ hσ (le_timeAt body 0 0 wf.waits)) fuel Sf hrun
+  exact ⟨fuel', Uf, hf, hR.log, hR.stamps, hR.store, hR.time, hR.real⟩
+
+
+/-! ### the hypotheses of `lowerBody_sound` are satisfiable: a counting loop that jumps back in time -/
+
+/-- `A = 3; lab0: ins_200(A + B * -(A + 1)); +5: if (--A > 0) goto lab0 @ 0; B = (A == 0) ? B - 1 : 9; ins_201(B);` -/
+def sampleBody : List JSStmt :=
+  [.base (.assign .set rA (.litI 3)), .label 0, .base (.call 200 [sampleExpr]), .wait 5,
+   .condGoto .kif (.predec rA .gt) ⟨0, some 0⟩,
+   .base (.assign .set rB (.ternary (.binop .eq (.var rA) (.litI 0)) (.binop .sub (.var rB) (.litI 1)) (.litI 9))),
+   .base (.call 201 [.var rB])]
+
+theorem sampleBody_ok : ∀ st ∈ sampleBody, StmtOK 100 st := by
+  intro st hst
+  simp only [sampleBody, List.mem_cons, List.not_mem_nil, or_false] at hst
+  rcases hst with rfl | rfl | rfl | rfl | rfl | rfl | rfl
+  · exact ⟨rfl, trivial, Or.inl ⟨trivial, trivial⟩⟩
+  · trivial
+  · intro e he
+    simp only [List.mem_cons, List.not_mem_nil, or_false] at he
+    subst he
+    exact ⟨by simp [sampleExpr, IntOnly, rA, rB, VarRef.readTy], by simp [sampleExpr, exprBelow, below, rA, rB]⟩
+  · trivial
+  · exact ⟨rfl, fun v k h => by cases h; trivial⟩
+  · exact ⟨rfl, trivial, Or.inr ⟨rfl, _, _, _, rfl, by simp [IntOnly, rA, rB, VarRef.readTy], by simp [exprBelow, below, rA, rB]⟩⟩
+  · intro e he
+    simp only [List.mem_cons, List.not_mem_nil, or_false] at he
+    subst he
+    exact ⟨rfl, trivial⟩
+
+theorem sampleBody_wf : BodyWF 1000 0 sampleBody where
+  nodup := by decide
+  labelsLt := by decide
+  targetsLt := by
+    intro st hst g hg
+    simp only [sampleBody, List.mem_cons, List.not_mem_nil, or_false] at hst
+    rcases hst with rfl | rfl | rfl | rfl | rfl | rfl | rfl <;> simp [jumpOfS] at hg
+    subst hg; decide
+  waits := by
+    intro n hn
+    simp only [sampleBody, List.mem_cons, List.not_mem_nil, or_false] at hn
+    rcases hn with hn | hn | hn | hn | hn | hn | hn <;> simp at hn
+    subst hn; decide
+  jumpTimes := by
+    intro st hst g x hg hx i tl hf
+    simp only [sampleBody, List.mem_cons, List.not_mem_nil, or_false] at hst
+    rcases hst with rfl | rfl | rfl | rfl | rfl | rfl | rfl <;> simp [jumpOfS] at hg
+    subst hg
+    simp only [Option.some.injEq] at hx
+    subst hx
+    simp [sampleBody, stampBody, stmtTime, findLabelS] at hf
+    omega
+
+def bodyLen : Outcome (List (Int × JStmt)) → Option Nat
+  | .ok P => some P.length
+  | _ => none
+
+/-- the body compiles under both tables (native jumps / the cmp + jmp pair with fallback arithmetic) -/
+theorem sampleBody_lowers : bodyLen (lowerBodyJ jTwoPart 255 0 255 100 1000 0 sampleBody) = some 18 := by decide +kernel
+example : bodyLen (lowerBodyJ jNative 255 0 255 100 1000 0 sampleBody) = some 17 := by decide +kernel
+
+def runLog : Outcome VM → Option (List (Nat × List Value) × List Int × Int × Int)
+  | .ok s => some (s.m.log, s.stamps, s.m.time, s.real)
+  | _ => none
+
+/-- the source run terminates: three calls of ins_200 at real times 0, 5, 10 (the jump goes back to time 0, the real
+time does not), then ins_201(8) -/
+theorem sampleBody_runs : runLog (runJS someFloats 0 (stampBody 0 sampleBody) 40 0 ⟨⟨fun _ => .int 7, [], 0⟩, 0, []⟩) =
+    some ([(200, [.int (-25)]), (200, [.int (-19)]), (200, [.int (-13)]), (201, [.int 6])], [0, 5, 10, 15], 5, 15) := by
+  decide +kernel
+
+/-- `lowerBody_sound` applied: the compiled loop logs the same four calls at the same real times -/
+example : ∃ P fuel' Uf, lowerBodyJ jTwoPart 255 0 255 100 1000 0 sampleBody = .ok P ∧
+    execT someFloats 0 P fuel' 0 ⟨⟨⟨fun _ => .int 7, [], 0⟩, 0, []⟩, none⟩ = .ok Uf ∧
+    Uf.vm.m.log = [(200, [.int (-25)]), (200, [.int (-19)]), (200, [.int (-13)]), (201, [.int 6])] ∧
+    Uf.vm.stamps = [0, 5, 10, 15] := by
+  cases hL : lowerBodyJ jTwoPart 255 0 255 100 1000 0 sampleBody with
+  | err x => have := sampleBody_lowers; rw [hL] at this; cases this
+  | panic x => have := sampleBody_lowers; rw [hL] at this; cases this
+  | ok P =>
+    cases hr : runJS someFloats 0 (stampBody 0 sampleBody) 40 0 ⟨⟨fun _ => .int 7, [], 0⟩, 0, []⟩ with
+    | err x => have := sampleBody_runs; rw [hr] at this; cases this
+    | panic x => have := sampleBody_runs; rw [hr] at this; cases this
+    | ok Sf =>
+      have hrun := sampleBody_runs
+      rw [hr] at hrun
+      simp only [runLog, Option.some.injEq, Prod.mk.injEq] at hrun
+      obtain ⟨fuel', Uf, hf, hlog, hstamps, _⟩ := lowerBody_sound_init someFloats jTwoPart 255 0 0 255 100 1000 sampleBody P
+        (by decide) sampleBody_ok sampleBody_wf hL (fun _ => .int 7) (fun _ => ⟨7, rfl⟩) 40 Sf hr
+      exact ⟨P, fuel', Uf, rfl, hf, by rw [hlog, hrun.1], by rw [hstamps, hrun.2.1]⟩
+
+
+section regassign
+open TruthModel.C05
+
+/-! ## 19. composition with register assignment (C05) -/
+
+/-- the stream as `assign_registers` sees it -/
+abbrev regsView (I : JIntrinsics) (order : JumpOrder) (P : List (Int × JStmt)) : List Regs.Stmt :=
+  P.map (fun x => toRegsStmtJ I order x.1 x.2)
+
+/-- **assign_preserves_exec** (C02 ∘ C05).  Let `assign_registers` (`Regs.assign`, the repaired explicit-register scan,
+no parameters) succeed on a lowered stream `P` with labels and jumps.  Then `Lower.scanJ` - the same loop, keeping the
+state in front of every statement - succeeds, the stream `P'` it rewrote IS the stream `assign_registers` emitted, and
+for every annotation `D` of certainly-initialised locals that satisfies `InitOK` (every operand is a single operand;
+every local read is initialised; scopes and initialisation are consistent along every jump), every fuel and state:
+whatever the timed machine `execT` computes on `P` it computes, with the same fuel, on `P'`: same log with the same
+`real_time` stamps, same `time` and `real_time`, and the same final value in every register that is mentioned in the
+script or is not general-purpose.  (Locals and temporaries of `P` are variables of their own; in `P'` they live in
+registers: two live locals never share one and no mentioned register is handed out - `C05.assign_inv`.) -/
+theorem assign_preserves_exec (F : FloatOps) (diff : Nat) (h : Hooks) (hk : HooksOk h) (tyOf : Def → RTy) (I : JIntrinsics)
+    (order : JumpOrder) (P : List (Int × JStmt)) (res : Regs.Result)
+    (ha : assign .deep h tyOf [] (regsView I order P) = .ok res) :
+    ∃ sts P', scanJ h tyOf (clashing (mentioned (regsView I order P)) []) I order (init h (mentioned (regsView I order P)) []) P
+        = .ok (sts, P') ∧ res.stream = regsView I order P' ∧
+      ∀ D, InitOK diff P sts D → ∀ (fuel : Nat) (s sf : TVM), execT F diff P fuel 0 s = .ok sf →
+        ∃ uf, execT F diff P' fuel 0 s = .ok uf ∧ uf.vm.m.log = sf.vm.m.log ∧ uf.vm.stamps = sf.vm.stamps ∧
+          uf.vm.m.time = sf.vm.m.time ∧ uf.vm.real = sf.vm.real ∧
+          ∀ r, (r ∈ mentioned (regsView I order P) ∨ (r ∉ h.general .int ∧ r ∉ h.general .float)) →
+            uf.vm.m.store (.reg r) = sf.vm.m.store (.reg r) := by
+  obtain ⟨sts, P', hscan, hstream⟩ := scanJ_of_assign ha
+  refine ⟨sts, P', hscan, hstream, ?_⟩
+  intro D hD fuel s sf hrun
+  have hinv := inv_init h tyOf (mentioned (regsView I order P)) [] hk
+  have hlive0 : liveAt sts 0 = [] := by
+    have := scanJ_head hscan
+    simp [liveAt, this, init, initLive]
+  have R0 : RelT h (mentioned (regsView I order P)) (liveAt sts 0) (D 0) s s :=
+    ⟨rfl, rfl, rfl, rfl, rfl, ⟨by intro d r hl; rw [hlive0] at hl; simp [lookup] at hl, fun _ _ => rfl⟩⟩
+  obtain ⟨uf, pcf, hf, Rf⟩ := assign_preserves_execT (F := F) hscan hinv
+    (fun pc t st hp a ha r hr => regs_mentioned hp ha hr) hD fuel 0 s s sf hrun R0
+  refine ⟨uf, hf, Rf.log, Rf.stamps, Rf.time, Rf.real, ?_⟩
+  intro r hr
+  apply Rf.store.reg
+  intro hal
+  rcases hr with hr | hr
+  · exact hal.2 hr
+  · rcases hal.1 with h1 | h1
+    · exact hr.1 h1
+    · exact hr.2 h1
+
+/-- decidable form of the hypotheses of the jump-free case -/
+def wbrFrom (diff : Nat) : List Def → List (Int × JStmt) → Bool
+  | _, [] => true
+  | D, (_, s) :: rest => (readLocs s).all (fun d => D.contains d) && wbrFrom diff (initStep diff D s) rest
+
+/-- no jumps, single operands only, every local written before it is read (in stream order) -/
+def straightOK (diff : Nat) (P : List (Int × JStmt)) : Bool :=
+  P.all (fun x => (jumpOf x.2).isNone) && P.all (fun x => (stmtArgs x.2).all Arg.isAtom) && wbrFrom diff [] P
+
+theorem wbrFrom_spec (diff : Nat) (P : List (Int × JStmt)) : ∀ (k pc : Nat), wbrFrom diff (linD diff P pc) (P.drop pc) = true →
+    ∀ (t : Int) (s : JStmt), P[pc + k]? = some (t, s) → ∀ d ∈ readLocs s, d ∈ linD diff P (pc + k)
+  | 0, pc, hw, t, s, hp, d, hd => by
+    have hlt : pc < P.length := by
+      rcases Nat.lt_or_ge pc P.length with h' | h'
+      · exact h'
+      · rw [Nat.add_zero, List.getElem?_eq_none h'] at hp; cases hp
+    have hdrop : P.drop pc = (t, s) :: P.drop (pc + 1) := by
+      rw [List.drop_eq_getElem_cons hlt]
+      congr 1
+      rw [Nat.add_zero, List.getElem?_eq_getElem hlt] at hp
+      exact Option.some.inj hp
+    rw [hdrop] at hw
+    simp only [wbrFrom, Bool.and_eq_true, List.all_eq_true] at hw
+    simpa using hw.1 d hd
+  | k + 1, pc, hw, t, s, hp, d, hd => by
+    have hlt : pc < P.length := by
+      rcases Nat.lt_or_ge pc P.length with h' | h'
+      · exact h'
+      · rw [List.getElem?_eq_none (by omega)] at hp; cases hp
+    have hdrop : P.drop pc = P[pc] :: P.drop (pc + 1) := List.drop_eq_getElem_cons hlt
+    rw [hdrop] at hw
+    simp only [wbrFrom, Bool.and_eq_true] at hw
+    have hlin : linD diff P (pc + 1) = initStep diff (linD diff P pc) P[pc].2 := by
+      simp [linD, List.getElem?_eq_getElem hlt]
+    have := wbrFrom_spec diff P k (pc + 1) (by rw [hlin]; exact hw.2) t s (by rw [← hp]; congr 1; omega) d hd
+    rw [show pc + (k + 1) = pc + 1 + k by omega]
+    exact this
+
+/-- **assign_preserves_exec_straight**: the jump-free case, all hypotheses decidable: a stream without jumps whose
+operands are single operands and whose locals are written before they are read (`straightOK`) runs after register
+assignment as before -/
+theorem assign_preserves_exec_straight (F : FloatOps) (diff : Nat) (h : Hooks) (hk : HooksOk h) (tyOf : Def → RTy)
+    (I : JIntrinsics) (order : JumpOrder) (P : List (Int × JStmt)) (res : Regs.Result)
+    (ha : assign .deep h tyOf [] (regsView I order P) = .ok res) (hok : straightOK diff P = true) :
+    ∃ P', res.stream = regsView I order P' ∧
+      ∀ (fuel : Nat) (s sf : TVM), execT F diff P fuel 0 s = .ok sf →
+        ∃ uf, execT F diff P' fuel 0 s = .ok uf ∧ uf.vm.m.log = sf.vm.m.log ∧ uf.vm.stamps = sf.vm.stamps ∧
+          uf.vm.m.time = sf.vm.m.time ∧ uf.vm.real = sf.vm.real ∧
+          ∀ r, (r ∈ mentioned (regsView I order P) ∨ (r ∉ h.general .int ∧ r ∉ h.general .float)) →
+            uf.vm.m.store (.reg r) = sf.vm.m.store (.reg r) := by
+  obtain ⟨sts, P', _, hstream, hall⟩ := assign_preserves_exec F diff h hk tyOf I order P res ha
+  simp only [straightOK, Bool.and_eq_true, List.all_eq_true] at hok
+  obtain ⟨⟨h1, h2⟩, h3⟩ := hok
+  refine ⟨P', hstream, hall (linD diff P) (initOK_linear diff P sts ?_ ?_ ?_)⟩
+  · intro pc t s hp
+    have := h1 (t, s) (List.mem_of_getElem? hp)
+    simpa using this
+  · intro pc t s hp a ha
+    exact h2 (t, s) (List.mem_of_getElem? hp) a ha
+  · intro pc t s hp d hd
+    have := wbrFrom_spec diff P pc 0 (by simpa [linD] using h3) t s (by simpa using hp) d hd
+    simpa using this
+
+
+/-- **lowerBody_assigned_sound** (C02 for flat integer bodies AFTER register assignment, the composition of
+`lowerBody_sound` with `assign_preserves_exec`): the script `assign_registers` emits for the lowered body logs what
+the source logs, at the same real times, and leaves every register that the script mentions or that is not
+general-purpose with the value the source leaves in it.  What is still a hypothesis is `InitOK`: an annotation of
+certainly-initialised locals for the lowered stream that is consistent along its jumps (for streams without jumps it is
+decidable: `straightOK`). -/
+theorem lowerBody_assigned_sound (F : FloatOps) (I : JIntrinsics) (order : JumpOrder) (db ab diff mask g0 lg0 : Nat)
+    (body : List JSStmt) (P : List (Int × JStmt)) (h : Hooks) (hk : HooksOk h) (tyOf : Def → RTy) (res : Regs.Result)
+    (hm : maskOn mask diff = true) (hok : ∀ st ∈ body, StmtOK g0 st) (wf : BodyWF lg0 0 body)
+    (hL : lowerBodyJ I db ab mask g0 lg0 0 body = .ok P)
+    (ha : assign .deep h tyOf [] (regsView I order P) = .ok res) :
+    ∃ sts P', scanJ h tyOf (clashing (mentioned (regsView I order P)) []) I order (init h (mentioned (regsView I order P)) []) P
+        = .ok (sts, P') ∧ res.stream = regsView I order P' ∧
+      ∀ D, InitOK diff P sts D → ∀ (σ : Store), IntStore σ → ∀ (fuel : Nat) (Sf : VM),
+        runJS F diff (stampBody 0 body) fuel 0 ⟨⟨σ, [], 0⟩, 0, []⟩ = .ok Sf →
+        ∃ fuel' Uf, execT F diff P' fuel' 0 ⟨⟨⟨σ, [], 0⟩, 0, []⟩, none⟩ = .ok Uf ∧
+          Uf.vm.m.log = Sf.m.log ∧ Uf.vm.stamps = Sf.stamps ∧
+          (∀ r, (r ∈ mentioned (regsView I order P) ∨ (r ∉ h.general .int ∧ r ∉ h.general .float)) →
+            Uf.vm.m.store (.reg r) = Sf.m.store (.reg r)) ∧
+          (Uf.vm.waitTo (endTime 0 body)).m.time = (Sf.waitTo (endTime 0 body)).m.time ∧
+          (Uf.vm.waitTo (endTime 0 body)).real = (Sf.waitTo (endTime 0 body)).real := by
+  obtain ⟨sts, P', hscan, hstream, hall⟩ := assign_preserves_exec F diff h hk tyOf I order P res ha
+  refine ⟨sts, P', hscan, hstream, ?_⟩
+  intro D hD σ hσ fuel Sf hrun
+  obtain ⟨fuel', Uf, hf, hlog, hstamps, hstore, htime, hreal⟩ :=
+    lowerBody_sound_init F I db ab diff mask g0 lg0 body P hm hok wf hL σ hσ fuel Sf hrun
+  obtain ⟨uf, hf', hlog', hstamps', htime', hreal', hregs⟩ := hall D hD fuel' _ Uf hf
+  have hc := VM.waitTo_congr (a := uf.vm) (b := Uf.vm) (endTime 0 body) htime' hreal'
+  refine ⟨fuel', uf, hf', by rw [hlog', hlog], by rw [hstamps', hstamps], ?_, by rw [hc.1, htime], by rw [hc.2, hreal]⟩
+  intro r hr
+  rw [hregs r hr]
+  exact hstore (.reg r) trivial
+
+/-! ### the hypotheses of section 19 are satisfiable -/
+
+/-- `A = A + B * -(A + 1); ins_200(A + B * -(A + 1), B);`: two temporaries -/
+def straightBody : List JSStmt := [.base (.assign .set rA sampleExpr), .base (.call 200 [sampleExpr, .var rB])]
+
+def streamOf : Outcome (List (Int × JStmt)) → List (Int × JStmt)
+  | .ok P => P
+  | _ => []
+
+def straightP : List (Int × JStmt) := streamOf (lowerBodyJ jNative 255 0 255 100 1000 0 straightBody)
+
+/-- four general-purpose integer registers, two of them named by the script -/
+def fourInts : Hooks := ⟨fun ty => match ty with | .int => [1000, 1001, 1002, 1003] | .float => [], fun _ => none⟩
+
+theorem fourInts_ok : HooksOk fourInts := by unfold HooksOk; decide
+
+example : straightP.length = 13 := by decide +kernel
+theorem straightP_ok : straightOK 0 straightP = true := by decide +kernel
+
+def assignedRegs : Outcome Regs.Result → Option (List Reg)
+  | .ok r => some (r.locals.map (·.reg))
+  | _ => none
+
+/-- register assignment succeeds: both temporaries get 1002 one after the other, never 1000 / 1001 -/
+theorem straightP_assigns :
+    assignedRegs (assign .deep fourInts (tyOfTable (typeTableJ straightP)) [] (regsView jNative .locTime straightP)) =
+      some [1002, 1002] := by decide +kernel
+
+/-- `assign_preserves_exec_straight` applied -/
+example : ∃ res P', assign .deep fourInts (tyOfTable (typeTableJ straightP)) [] (regsView jNative .locTime straightP) = .ok res ∧
+    res.stream = regsView jNative .locTime P' ∧
+    ∀ (fuel : Nat) (s sf : TVM), execT someFloats 0 straightP fuel 0 s = .ok sf →
+      ∃ uf, execT someFloats 0 P' fuel 0 s = .ok uf ∧ uf.vm.m.log = sf.vm.m.log ∧
+        uf.vm.m.store (.reg 1000) = sf.vm.m.store (.reg 1000) := by
+  cases hres : assign .deep fourInts (tyOfTable (typeTableJ straightP)) [] (regsView jNative .locTime straightP) with
+  | err x => have := straightP_assigns; rw [hres] at this; cases this
+  | panic x => have := straightP_assigns; rw [hres] at this; cases this
+  | ok res =>
+    obtain ⟨P', hs, hall⟩ := assign_preserves_exec_straight someFloats 0 fourInts fourInts_ok _ jNative .locTime straightP res hres straightP_ok
+    refine ⟨res, P', rfl, hs, ?_⟩
+    intro fuel s sf hrun
+    obtain ⟨uf, h1, h2, _, _, _, h3⟩ := hall fuel s sf hrun
+    exact ⟨uf, h1, h2, h3 1000 (Or.inl (by decide +kernel))⟩
+
+
+theorem straightP_lowers : lowerBodyJ jNative 255 0 255 100 1000 0 straightBody = .ok straightP := by
+  have hlen : straightP.length = 13 := by decide +kernel
+  unfold straightP at hlen ⊢
+  cases h : lowerBodyJ jNative 255 0 255 100 1000 0 straightBody with
+  | ok P => rfl
+  | err x => rw [h] at hlen; cases hlen
+  | panic x => rw [h] at hlen; cases hlen
+
+/-- `lowerBody_assigned_sound` applied to the straight-line body: all hypotheses hold (`InitOK` by the linear analysis) -/
+example : ∃ res P', assign .deep fourInts (tyOfTable (typeTableJ straightP)) [] (regsView jNative .locTime straightP) = .ok res ∧
+    res.stream = regsView jNative .locTime P' ∧
+    ∀ (fuel : Nat) (Sf : VM), runJS someFloats 0 (stampBody 0 straightBody) fuel 0 ⟨⟨fun _ => .int 7, [], 0⟩, 0, []⟩ = .ok Sf →
+      ∃ fuel' Uf, execT someFloats 0 P' fuel' 0 ⟨⟨⟨fun _ => .int 7, [], 0⟩, 0, []⟩, none⟩ = .ok Uf ∧ Uf.vm.m.log = Sf.m.log ∧
+        Uf.vm.m.store (.reg 1000) = Sf.m.store (.reg 1000) := by
+  cases hres : assign .deep fourInts (tyOfTable (typeTableJ straightP)) [] (regsView jNative .locTime straightP) with
+  | err x => have := straightP_assigns; rw [hres] at this; cases this
+  | panic x => have := straightP_assigns; rw [hres] at this; cases this
+  | ok res =>
+    have hbody : ∀ st ∈ straightBody, StmtOK 100 st := by
+      intro st hst
+      simp only [straightBody, List.mem_cons, List.not_mem_nil, or_false] at hst
+      rcases hst with rfl | rfl
+      · exact ⟨rfl, trivial, Or.inl ⟨by simp [sampleExpr, IntOnly, rA, rB, VarRef.readTy], by simp [sampleExpr, exprBelow, below, rA, rB]⟩⟩
+      · intro e he
+        simp only [List.mem_cons, List.not_mem_nil, or_false] at he
+        rcases he with rfl | rfl
+        · exact ⟨by simp [sampleExpr, IntOnly, rA, rB, VarRef.readTy], by simp [sampleExpr, exprBelow, below, rA, rB]⟩
+        · exact ⟨rfl, trivial⟩
+    have hwf : BodyWF 1000 0 straightBody :=
+      ⟨by decide, by decide,
+       by intro st hst g hg; simp only [straightBody, List.mem_cons, List.not_mem_nil, or_false] at hst
+          rcases hst with rfl | rfl <;> simp [jumpOfS] at hg,
+       by intro n hn; simp [straightBody] at hn,
+       by intro st hst g x hg; simp only [straightBody, List.mem_cons, List.not_mem_nil, or_false] at hst
+          rcases hst with rfl | rfl <;> simp [jumpOfS] at hg⟩
+    obtain ⟨sts, P', _, hs, hall⟩ := lowerBody_assigned_sound someFloats jNative .locTime 255 0 0 255 100 1000 straightBody straightP
+      fourInts fourInts_ok _ res (by decide) hbody hwf straightP_lowers hres
+    have hok := straightP_ok
+    simp only [straightOK, Bool.and_eq_true, List.all_eq_true] at hok
+    obtain ⟨⟨h1, h2⟩, h3⟩ := hok
+    have hD : InitOK 0 straightP sts (linD 0 straightP) := by
+      refine initOK_linear 0 straightP sts ?_ ?_ ?_
+      · intro pc t s hp; simpa using h1 (t, s) (List.mem_of_getElem? hp)
+      · intro pc t s hp a ha; exact h2 (t, s) (List.mem_of_getElem? hp) a ha
+      · intro pc t s hp d hd
+        simpa using wbrFrom_spec 0 straightP pc 0 (by simpa [linD] using h3) t s (by simpa using hp) d hd
+    refine ⟨res, P', rfl, hs, ?_⟩
+    intro fuel Sf hrun
+    obtain ⟨fuel', Uf, hf, hlog, _, hregs, _⟩ := hall _ hD (fun _ => .int 7) (fun _ => ⟨7, rfl⟩) fuel Sf hrun
+    exact ⟨fuel', Uf, hf, hlog, hregs 1000 (Or.inl (by decide +kernel))⟩
+
+/-! a stream WITH a jump that satisfies `InitOK`: `L5: int x (local 7); x = 3; if (--x) goto L5;` - the local is written
+before the counting jump reads it on every path, and nothing is live at the target of the jump -/
+def loopP : List (Int × JStmt) :=
+  [(0, .label 0 5), (0, .base (.alloc 7 .int)),
+   (0, .base (.instr ⟨255, .assignOp .set .int, [.loc 7 .int, .imm (.int 3)]⟩)),
+   (0, .countJmp 255 .ne (.loc 7 .int) 5 none)]
+
+def loopD : Nat → List Def
+  | 3 => [7]
+  | 4 => [7]
+  | _ => []
+
+example (sts : List State) (hlive0 : ∀ st, sts[0]? = some st → st.live = []) : InitOK 0 loopP sts loopD where
+  atoms := by
+    intro pc t s hp a ha
+    match pc with
+    | 0 | 1 | 2 | 3 =>
+      simp only [loopP, List.getElem?_cons_succ, List.getElem?_cons_zero, Option.some.injEq, Prod.mk.injEq] at hp
+      obtain ⟨_, rfl⟩ := hp
+      simp [stmtArgs] at ha <;> (first | (subst ha; rfl) | (rcases ha with rfl | rfl <;> rfl))
+    | n + 4 => simp [loopP] at hp
+  reads := by
+    intro pc t s hp d hd
+    match pc with
+    | 0 | 1 | 2 | 3 =>
+      simp only [loopP, List.getElem?_cons_succ, List.getElem?_cons_zero, Option.some.injEq, Prod.mk.injEq] at hp
+      obtain ⟨_, rfl⟩ := hp
+      simp [readLocs, readArgsOf, argLocs] at hd <;> simp [loopD, hd]
+    | n + 4 => simp [loopP] at hp
+  next := by
+    intro pc t s hp d hd
+    match pc with
+    | 0 | 1 | 3 => simp [loopD] at hd <;> simp [loopD, hd]
+    | 2 =>
+      simp only [loopP, List.getElem?_cons_succ, List.getElem?_cons_zero, Option.some.injEq, Prod.mk.injEq] at hp
+      obtain ⟨_, rfl⟩ := hp
+      simp only [loopD, List.mem_cons, List.not_mem_nil, or_false] at hd
+      subst hd
+      left
+      decide
+    | n + 4 => simp [loopP] at hp
+  alloc := by
+    intro pc t d ty hp
+    match pc with
+    | 0 | 2 | 3 => simp [loopP] at hp
+    | 1 => simp [loopD]
+    | n + 4 => simp [loopP] at hp
+  jump := by
+    intro pc t s l tm i tl hp hj hf
+    match pc with
+    | 0 | 1 | 2 =>
+      simp only [loopP, List.getElem?_cons_succ, List.getElem?_cons_zero, Option.some.injEq, Prod.mk.injEq] at hp
+      obtain ⟨_, rfl⟩ := hp
+      simp [jumpOf] at hj
+    | 3 =>
+      simp only [loopP, List.getElem?_cons_succ, List.getElem?_cons_zero, Option.some.injEq, Prod.mk.injEq] at hp
+      obtain ⟨_, rfl⟩ := hp
+      simp only [jumpOf, Option.some.injEq, Prod.mk.injEq] at hj
+      obtain ⟨rfl, rfl⟩ := hj
+      simp [loopP, findLabelJ] at hf
+      obtain ⟨rfl, rfl⟩ := hf
+      refine ⟨by simp [loopD], ?_⟩
+      intro stp sti _ h0 d r hl
+      rw [hlive0 sti h0] at hl
+      simp [lookup] at hl
+    | n + 4 => simp [loopP] at hp
+
+
+end regassign
+
+/-! ## 20. runs that do not stop -/
+
+/-- a source machine that can make `n` steps has not stopped within the iteration limit `n` -/
+theorem runJS_fuel_of_stepsS {F : FloatOps} {diff : Nat} {B : List (Int × JSStmt)} {n j pc pc' : Nat} {S S' : VM}
+    (h : StepsS F diff B n j pc S pc' S') : ∀ fuel, fuel ≤ n → runJS F diff B fuel pc S = .panic "out of fuel" := by
+  induction h with
+  | refl pc S => intro fuel hf; have : fuel = 0 := by omega
+                 subst this; rfl
+  | step n j pc S pc1 S1 pc2 S2 hs _ ih =>
+    intro fuel hf
+    cases fuel with
+    | zero => rfl
+    | succ fuel => simp only [runJS, hs]; exact ih fuel (by omega)
+
+/-- **lowerBody_diverges** (the other direction of `lowerBody_sound`): under the same hypotheses, if the source machine
+can make any number of steps - it neither runs off the end of the body nor fails, so it exceeds every iteration limit
+(`runJS_fuel_of_stepsS`) - then the compiled script does not stop either: `execT` runs out of every fuel. -/
+theorem lowerBody_diverges (F : FloatOps) (I : JIntrinsics) (db ab diff mask g0 lg0 : Nat) (t0 : Int) (body : List JSStmt)
+    (P : List (Int × JStmt)) (hm : maskOn mask diff = true) (hok : ∀ st ∈ body, StmtOK g0 st) (wf : BodyWF lg0 t0 body)
+    (hL : lowerBodyJ I db ab mask g0 lg0 t0 body = .ok P)
+    (S0 : VM) (U0 : TVM) (hinit : SimRel (below g0) IntStore (timeAt t0 body 0) S0 U0)
+    (hdiv : ∀ n, ∃ j pc S, StepsS F diff (stampBody t0 body) n j 0 S0 pc S) :
+    ∀ fuel, execT F diff P fuel 0 U0 = .panic "out of fuel" := by
+  have hsim : BodySim F diff (below g0) IntStore I db ab mask g0 lg0 body := by
+    intro st hst g lg t code g' lg' hg hlg h
+    exact stmtSim_int F I db ab diff mask g0 lg0 hm (hok st hst) (fun tg htg => wf.targetsLt st hst tg htg) hg hlg h
+  intro fuel
+  obtain ⟨c, pc, U, hc, hr⟩ := body_diverges hL wf hsim S0 U0 hinit hdiv fuel
+  exact execT_fuel_of_reachTn hr fuel hc
+
+/-! ### the hypotheses of `lowerBody_diverges` are satisfiable: `lab0: A = A + 1; goto lab0;` -/
+
+def foreverBody : List JSStmt := [.label 0, .base (.assign .add rA (.litI 1)), .goto ⟨0, none⟩]
+
+def allSevenAt (n : Int32) : VM := ⟨⟨fun x => if x = .reg 1000 then .int n else .int 7, [], 0⟩, 0, []⟩
+
+theorem forever_step0 (n : Int32) : stepS someFloats 0 (stampBody 0 foreverBody) 0 (allSevenAt n) = .ok (some (1, allSevenAt n)) := by
+  simp [stepS, stampBody, foreverBody, stmtTime, runStmtJ, VM.waitTo, allSevenAt, VM.after]
+
+theorem forever_step2 (n : Int32) : stepS someFloats 0 (stampBody 0 foreverBody) 2 (allSevenAt n) = .ok (some (0, allSevenAt n)) := by
+  simp [stepS, stampBody, foreverBody, stmtTime, runStmtJ, VM.waitTo, allSevenAt, VM.after, findLabelS, VM.setTime]
+
+theorem forever_step1 (n : Int32) : stepS someFloats 0 (stampBody 0 foreverBody) 1 (allSevenAt n) = .ok (some (2, allSevenAt (n + 1))) := by
+  have : (fun x => if x = VarName.reg 1000 then Value.int (n + 1) else Value.int 7) =
+      upd (fun x => if x = VarName.reg 1000 then Value.int n else Value.int 7) (.reg 1000) (.int (n + 1)) := by
+    funext x; by_cases h : x = .reg 1000 <;> simp [upd, h]
+  simp [stepS, stampBody, foreverBody, stmtTime, runStmtJ, runStmtS, runAssign, AssignOp.binop, evalS, rA, VM.waitTo, allSevenAt,
+    VM.after, binop, binopInt, this]
+
+theorem forever_runs : ∀ (n : Nat) (k : Int32) (pc : Nat), pc < 3 →
+    ∃ j pc' S, StepsS someFloats 0 (stampBody 0 foreverBody) n j pc (allSevenAt k) pc' S
+  | 0, k, pc, _ => ⟨0, pc, _, .refl _ _⟩
+  | n + 1, k, pc, hpc => by
+    match pc, hpc with
+    | 0, _ =>
+      obtain ⟨j, pc', S, h⟩ := forever_runs n k 1 (by omega)
+      exact ⟨_, pc', S, .step _ _ _ _ _ _ _ _ (forever_step0 k) h⟩
+    | 1, _ =>
+      obtain ⟨j, pc', S, h⟩ := forever_runs n (k + 1) 2 (by omega)
+      exact ⟨_, pc', S, .step _ _ _ _ _ _ _ _ (forever_step1 k) h⟩
+    | 2, _ =>
+      obtain ⟨j, pc', S, h⟩ := forever_runs n k 0 (by omega)
+      exact ⟨_, pc', S, .step _ _ _ _ _ _ _ _ (forever_step2 k) h⟩
+
+/-- the compiled loop does not stop -/
+example : ∃ P, lowerBodyJ jNative 255 0 255 100 1000 0 foreverBody = .ok P ∧
+    ∀ fuel, execT someFloats 0 P fuel 0 ⟨allSevenAt 7, none⟩ = .panic "out of fuel" := by
+  have hlen : bodyLen (lowerBodyJ jNative 255 0 255 100 1000 0 foreverBody) = some 3 := by decide +kernel
+  cases hL : lowerBodyJ jNative 255 0 255 100 1000 0 foreverBody with
+  | err x => rw [hL] at hlen; cases hlen
+  | panic x => rw [hL] at hlen; cases hlen
+  | ok P =>
+    refine ⟨P, rfl, ?_⟩
+    have hok : ∀ st ∈ foreverBody, StmtOK 100 st := by
+      intro st hst
+      simp only [foreverBody, List.mem_cons, List.not_mem_nil, or_false] at hst
+      rcases hst with rfl | rfl | rfl
+      · trivial
+      · exact ⟨rfl, trivial, Or.inl ⟨trivial, trivial⟩⟩
+      · trivial
+    have hwf : BodyWF 1000 0 foreverBody :=
+      ⟨by decide, by decide,
+       by intro st hst g hg; simp only [foreverBody, List.mem_cons, List.not_mem_nil, or_false] at hst
+          rcases hst with rfl | rfl | rfl <;> simp [jumpOfS] at hg
+          subst hg; decide,
+       by intro n hn; simp [foreverBody] at hn,
+       by intro st hst g x hg hx; simp only [foreverBody, List.mem_cons, List.not_mem_nil, or_false] at hst
+          rcases hst with rfl | rfl | rfl <;> simp [jumpOfS] at hg
+          subst hg; simp at hx⟩
+    have hinit : SimRel (below 100) IntStore (timeAt 0 foreverBody 0) (allSevenAt 7) ⟨allSevenAt 7, none⟩ :=
+      ⟨rfl, rfl, rfl, rfl, fun _ _ => rfl, fun x => by by_cases h : x = .reg 1000 <;> simp [allSevenAt, h], by decide⟩
+    exact lowerBody_diverges someFloats jNative 255 0 0 255 100 1000 0 foreverBody P (by decide) hok hwf hL _ _ hinit
+      (fun n => forever_runs n 7 0 (by omega))
+
+
+/-! ## 21. the integer fragment with ternaries ANYWHERE (operands, conditions, branches, call arguments) -/
+
+/-- integer expressions: literals, variables read as `int`, `-x` `!x` `~x`, every binary operator, and `c ? l : r`
+at any depth -/
+def IntT : SExpr → Prop
+  | .litI _ => True
+  | .var v => v.readTy = .int
+  | .unop op e => (op = .neg ∨ op = .not ∨ op = .bnot) ∧ IntT e
+  | .binop _ a b => IntT a ∧ IntT b
+  | .ternary c l r => IntT c ∧ IntT l ∧ IntT r
+  | _ => False
+
+/-- all locals of the expression are below the temp counter -/
+def belowT (g : Nat) : SExpr → Prop
+  | .var v => below g v.name
+  | .unop _ e => belowT g e
+  | .binop _ a b => belowT g a ∧ belowT g b
+  | .ternary c l r => belowT g c ∧ belowT g l ∧ belowT g r
+  | .litI _ => True
+  | .litF _ => True
+  | _ => False
+
+theorem intT_of_intOnly : ∀ {e : SExpr}, IntOnly e → IntT e
+  | .litI _, _ => trivial
+  | .var _, h => h
+  | .unop _ _, h => ⟨h.1, intT_of_intOnly h.2⟩
+  | .binop _ _ _, h => ⟨intT_of_intOnly h.1, intT_of_intOnly h.2⟩
+  | .litF _, h => h.elim
+  | .ternary _ _ _, h => h.elim
+  | .switch _, h => h.elim
+  | .omitted, h => h.elim
+
+theorem belowT_of_exprBelow {g : Nat} : ∀ {e : SExpr}, exprBelow g e → belowT g e
+  | .litI _, _ => trivial
+  | .litF _, _ => trivial
+  | .var _, h => h
+  | .unop _ e, h => belowT_of_exprBelow (e := e) h
+  | .binop _ _ _, h => ⟨belowT_of_exprBelow h.1, belowT_of_exprBelow h.2⟩
+  | .ternary _ _ _, h => h.elim
+  | .switch _, h => h.elim
+  | .omitted, h => h.elim
+
+theorem belowT_mono {g g' : Nat} (h : g ≤ g') : ∀ {e : SExpr}, belowT g e → belowT g' e
+  | .var _, hb => below_mono h hb
+  | .unop _ e, hb => belowT_mono h (e := e) hb
+  | .binop _ _ _, hb => ⟨belowT_mono h hb.1, belowT_mono h hb.2⟩
+  | .ternary _ _ _, hb => ⟨belowT_mono h hb.1, belowT_mono h hb.2.1, belowT_mono h hb.2.2⟩
+  | .litI _, _ => trivial
+  | .litF _, _ => trivial
+  | .switch _, hb => hb.elim
+  | .omitted, hb => hb.elim
+
+theorem intT_ty : ∀ {e : SExpr}, IntT e → e.ty = .int
+  | .litI _, _ => rfl
+  | .var v, h => h
+  | .unop op e, h => by
+    rcases h.1 with rfl | rfl | rfl
+    · simp [SExpr.ty, unopTy, intT_ty h.2]
+    · simp [SExpr.ty, unopTy]
+    · simp [SExpr.ty, unopTy]
+  | .binop op a b, h => by
+    simp only [SExpr.ty, intT_ty h.1]
+    cases op <;> rfl
+  | .ternary c l r, h => by simp only [SExpr.ty]; exact intT_ty h.2.1
+
+/-- a simple expression of the fragment is in the old fragment -/
+theorem intOnly_of_simple {e : SExpr} {a : Arg} (hi : IntT e) (h : e.simple? = some a) : IntOnly e := by
+  cases e with
+  | litI _ => trivial
+  | var v => exact hi
+  | _ => simp [SExpr.simple?] at h <;> exact hi.elim
+
+theorem exprBelow_of_simple {g : Nat} {e : SExpr} {a : Arg} (hb : belowT g e) (h : e.simple? = some a) : exprBelow g e := by
+  cases e with
+  | litI _ => trivial
+  | litF _ => trivial
+  | var v => exact hb
+  | _ => simp [SExpr.simple?] at h <;> exact hb.elim
+
+theorem intT_simpleTy {e : SExpr} (h : IntT e) : e.simpleTy = .int := by
+  cases e <;> first
+    | (simp [IntT] at h; done)
+    | (simp only [SExpr.simpleTy]; exact intT_ty h)
+
+/-- a non-simple expression of the fragment is stored whole into an `int` temporary and read back as `int` -/
+theorem intT_temp {e : SExpr} (h : IntT e) : e.temp.tmpExpr = e ∧ e.temp.tmpTy = .int ∧ e.temp.readTy = .int := by
+  cases e with
+  | unop op b =>
+    have ht := intT_ty h
+    rcases h.1 with rfl | rfl | rfl <;> simp [SExpr.temp, castSigil, ht]
+  | litI _ => simp [SExpr.temp, SExpr.ty]
+  | var v => simp [SExpr.temp, SExpr.ty]; exact h
+  | binop op a b => simp [SExpr.temp]; exact intT_ty h
+  | ternary c l r => simp [SExpr.temp]; exact intT_ty h
+  | litF _ => simp [IntT] at h
+  | switch _ => simp [IntT] at h
+  | omitted => simp [IntT] at h
+
+/-- the value of an expression of the fragment from an integer store is an integer -/
+theorem evalS_intT (F : FloatOps) (diff : Nat) (σ : Store) (hs : IntStore σ) :
+    ∀ {e : SExpr} {v : Value}, IntT e → evalS F diff σ e = .ok v → ∃ n, v = .int n
+  | .litI n, v, _, h => by simp only [evalS, Outcome.ok.injEq] at h; exact ⟨n, h.symm⟩
+  | .var x, v, hi, h => evalS_int F diff σ hs (e := .var x) hi h
+  | .unop op e, v, hi, h => by
+    simp only [evalS] at h
+    split at h
+    · rename_i x hx
+      obtain ⟨n, rfl⟩ := evalS_intT F diff σ hs hi.2 hx
+      rcases hi.1 with rfl | rfl | rfl <;>
+        simp only [castSigil, unop, Outcome.ok.injEq] at h <;> exact ⟨_, h.symm⟩
+    · cases h
+    · cases h
+  | .binop op a b, v, hi, h => by
+    simp only [evalS] at h
+    split at h
+    · rename_i va ha
+      split at h
+      · rename_i vb hb
+        obtain ⟨na, rfl⟩ := evalS_intT F diff σ hs hi.1 ha
+        obtain ⟨nb, rfl⟩ := evalS_intT F diff σ hs hi.2 hb
+        exact binopInt_int op na nb v h
+      · cases h
+      · cases h
+    · cases h
+    · cases h
+  | .ternary c l r, v, hi, h => by
+    obtain ⟨vc, _, hb⟩ := evalS_ternary_inv h
+    by_cases hz : vc = 0
+    · simp only [hz, if_true] at hb; exact evalS_intT F diff σ hs hi.2.2 hb
+    · simp only [hz, if_false] at hb; exact evalS_intT F diff σ hs hi.2.1 hb
+
+/-- evaluation only looks at the variables of the expression -/
+theorem evalS_congrT (F : FloatOps) (diff : Nat) (σ τ : Store) :
+    ∀ {e : SExpr}, IntT e → (∀ x, e.uses x = true → σ x = τ x) → evalS F diff σ e = evalS F diff τ e
+  | .litI _, _, _ => rfl
+  | .var v, _, h => by
+    have : σ v.name = τ v.name := h v.name (by simp [SExpr.uses])
+    simp only [evalS, this]
+  | .unop op e, hi, h => by
+    have := evalS_congrT F diff σ τ hi.2 (fun x hx => h x (by simpa [SExpr.uses] using hx))
+    simp only [evalS, this]
+  | .binop op a b, hi, h => by
+    have h1 := evalS_congrT F diff σ τ hi.1 (fun x hx => h x (by simp [SExpr.uses, hx]))
+    have h2 := evalS_congrT F diff σ τ hi.2 (fun x hx => h x (by simp [SExpr.uses, hx]))
+    simp only [evalS, h1, h2]
+  | .ternary c l r, hi, h => by
+    have h1 := evalS_congrT F diff σ τ hi.1 (fun x hx => h x (by simp [SExpr.uses, hx]))
+    have h2 := evalS_congrT F diff σ τ hi.2.1 (fun x hx => h x (by simp [SExpr.uses, hx]))
+    have h3 := evalS_congrT F diff σ τ hi.2.2 (fun x hx => h x (by simp [SExpr.uses, hx]))
+    simp only [evalS, h1, h2, h3]
+
+theorem uses_belowT {g : Nat} : ∀ {e : SExpr} {x : VarName}, belowT g e → e.uses x = true → below g x
+  | .var v, x, hb, hu => by
+    simp only [SExpr.uses, beq_iff_eq] at hu; subst hu; exact hb
+  | .unop _ e, x, hb, hu => uses_belowT (e := e) hb (by simpa [SExpr.uses] using hu)
+  | .binop _ a b, x, hb, hu => by
+    simp only [SExpr.uses, Bool.or_eq_true] at hu
+    cases hu with
+    | inl hu => exact uses_belowT hb.1 hu
+    | inr hu => exact uses_belowT hb.2 hu
+  | .ternary c l r, x, hb, hu => by
+    simp only [SExpr.uses, Bool.or_eq_true] at hu
+    rcases hu with (hu | hu) | hu
+    · exact uses_belowT hb.1 hu
+    · exact uses_belowT hb.2.1 hu
+    · exact uses_belowT hb.2.2 hu
+  | .litI _, _, _, hu => by simp [SExpr.uses] at hu
+  | .litF _, _, _, hu => by simp [SExpr.uses] at hu
+  | .switch _, _, hb, _ => hb.elim
+  | .omitted, _, hb, _ => hb.elim
+
+/-- evaluation in a store that agrees below the temp counter -/
+theorem evalS_frameT (F : FloatOps) (diff g : Nat) {σ τ : Store} {e : SExpr} (hi : IntT e) (hb : belowT g e)
+    (h : ∀ x, below g x → τ x = σ x) : evalS F diff τ e = evalS F diff σ e :=
+  evalS_congrT F diff τ σ hi (fun x hx => h x (uses_belowT hb hx))
+
+
+/-! ### what the fragments guarantee -/
+
+/-- the hypotheses under which `v = e` is lowered, in the model with labels (the script time is the time of the
+statement: the labels of ternaries carry it) -/
+structure CtxT (F : FloatOps) (diff g mask : Nat) (t : Int) (v : VarRef) (e : SExpr) (s : JM) (val : Value) : Prop where
+  maskOn : maskOn mask diff = true
+  vInt : v.readTy = .int
+  vBelow : below g v.name
+  intT : IntT e
+  belowT : belowT g e
+  intStore : IntStore s.m.store
+  time : s.m.time = t
+  eval : evalS F diff s.m.store e = .ok val
+
+/-- the fragment of `v = e` runs to its end, leaves `val` in `v` and nothing else below the temp counter changed -/
+def RunSet (F : FloatOps) (diff g : Nat) (v : VarRef) (s : JM) (code : List JStmt) (val : Value) : Prop :=
+  ∃ s', execFrag F diff .run code s = .ok (.fall, s') ∧ s'.m.store v.name = val ∧
+    (∀ x, x ≠ v.name → below g x → s'.m.store x = s.m.store x) ∧ s'.m.log = s.m.log ∧ s'.m.time = s.m.time ∧
+    IntStore s'.m.store
+
+/-- an operand of a binary / unary operation (see `OSpec`) -/
+structure RunOp (F : FloatOps) (diff g : Nat) (v : VarRef) (guard : Bool) (e : SExpr) (s : JM) (O : OperandJ) (val : Value) : Prop where
+  atom : IntAtom O.atom
+  run : ∃ s', execFrag F diff .run O.code s = .ok (.fall, s') ∧ atomValue s'.m.store O.atom = val ∧
+    (∀ x, below g x → (x ≠ v.name ∨ guard = false) → s'.m.store x = s.m.store x) ∧ s'.m.log = s.m.log ∧
+    s'.m.time = s.m.time ∧ IntStore s'.m.store
+  atomBelow : ∀ y, argVar O.atom = some y → below O.gen y
+  atomV : argVar O.atom = some v.name → (e.simple? = none ∧ O.free = none) ∨ e.uses v.name = true
+  freeAtom : ∀ d, O.free = some d → argVar O.atom = some (.loc g)
+  tyInt : O.ty = .int
+
+/-- an operand of a comparison (see `TSpec`) -/
+structure RunTemp (F : FloatOps) (diff g : Nat) (s : JM) (O : OperandJ) (val : Value) : Prop where
+  atom : IntAtom O.atom
+  tyInt : O.ty = .int
+  atomBelow : ∀ y, argVar O.atom = some y → below O.gen y
+  run : ∃ s', execFrag F diff .run O.code s = .ok (.fall, s') ∧ atomValue s'.m.store O.atom = val ∧
+    (∀ x, below g x → s'.m.store x = s.m.store x) ∧ s'.m.log = s.m.log ∧ s'.m.time = s.m.time ∧ IntStore s'.m.store
+
+/-- a conditional jump: left by the jump to the target iff `taken` -/
+def RunCond (F : FloatOps) (diff g : Nat) (tgt : Goto) (taken : Bool) (s : JM) (code : List JStmt) : Prop :=
+  ∃ s', execFrag F diff .run code s = .ok (exitIf taken tgt, s') ∧
+    (∀ x, below g x → s'.m.store x = s.m.store x) ∧ s'.m.log = s.m.log ∧ s'.m.time = s.m.time ∧ IntStore s'.m.store
+
+/-- the statement proved by induction on the fuel, for the nine mutually recursive functions -/
+def SoundT (F : FloatOps) (I : JIntrinsics) (db ab diff fuel : Nat) : Prop :=
+  (∀ g lg t mask v e code g' lg' s val, CtxT F diff g mask t v e s val →
+      lowerSetJ I db ab fuel g lg t mask v e = .ok (code, g', lg') → RunSet F diff g v s code val) ∧
+  (∀ g lg t mask v guard e O s val, CtxT F diff g mask t v e s val →
+      lowerOperandJ I db ab fuel g lg t mask v .int guard e = .ok O → RunOp F diff g v guard e s O val) ∧
+  (∀ g lg t mask v op a b code g' lg' s val, CtxT F diff g mask t v (.binop op a b) s val →
+      lowerBinopJ I db ab fuel g lg t mask v op a b = .ok (code, g', lg') → RunSet F diff g v s code val) ∧
+  (∀ g lg t mask v op b code g' lg' s val, CtxT F diff g mask t v (.unop op b) s val →
+      lowerUnopJ I db ab fuel g lg t mask v op b = .ok (code, g', lg') → RunSet F diff g v s code val) ∧
+  (∀ g lg t mask v c l r code g' lg' s val, CtxT F diff g mask t v (.ternary c l r) s val →
+      lowerTernaryJ I db ab fuel g lg t mask v c l r = .ok (code, g', lg') → RunSet F diff g v s code val) ∧
+  (∀ g lg t mask kw e tgt code g' lg' s n, maskOn mask diff = true → IntT e → belowT g e → IntStore s.m.store →
+      evalS F diff s.m.store e = .ok (.int n) → s.m.time = t → tgt.l < lg →
+      lowerCondJ I db ab fuel g lg t mask kw e tgt = .ok (code, g', lg') →
+      RunCond F diff g tgt (kw.takes (n != 0)) s code) ∧
+  (∀ g lg t mask e O s val, maskOn mask diff = true → IntT e → belowT g e → IntStore s.m.store →
+      evalS F diff s.m.store e = .ok val → s.m.time = t →
+      lowerTempJ I db ab fuel g lg t mask e = .ok O → RunTemp F diff g s O val) ∧
+  (∀ g lg t mask kw a op b tgt code g' lg' s x y r, maskOn mask diff = true → IntT a → IntT b → belowT g a → belowT g b →
+      IntStore s.m.store → evalS F diff s.m.store a = .ok (.int x) → evalS F diff s.m.store b = .ok (.int y) →
+      binopInt op x y = .ok (.int r) → s.m.time = t → tgt.l < lg →
+      lowerCmpJ I db ab fuel g lg t mask kw a op b tgt = .ok (code, g', lg') →
+      RunCond F diff g tgt (kw.takes (r != 0)) s code) ∧
+  (∀ g lg t mask kw a op b tgt code g' lg' s va vb r, maskOn mask diff = true → IntT a → IntT b → belowT g a → belowT g b →
+      IntStore s.m.store → evalS F diff s.m.store a = .ok (.int va) → evalS F diff s.m.store b = .ok (.int vb) →
+      (op = .land ∨ op = .lor) → binopInt op va vb = .ok (.int r) → s.m.time = t → tgt.l < lg →
+      lowerLogicJ I db ab fuel g lg t mask kw a op b tgt = .ok (code, g', lg') →
+      RunCond F diff g tgt (kw.takes (r != 0)) s code)
+
+theorem execFrag_alloc (F : FloatOps) (diff : Nat) (d : Def) (ty : RTy) (c : List JStmt) (s : JM) :
+    execFrag F diff .run (.base (.alloc d ty) :: c) s = execFrag F diff .run c s := by
+  simp [execFrag, stepJ, execStmt]
+
+/-- straight-line code on a state with a compare register -/
+theorem execFrag_liftJ (F : FloatOps) (diff : Nat) (c : List LStmt) (s : JM) (m' : Machine) (h : exec F diff s.m c = .ok m') :
+    execFrag F diff .run (liftCode c) s = .ok (.fall, ⟨m', s.cmp⟩) :=
+  execFrag_lift F diff s.cmp c s.m m' h
+
+theorem evalS_binop_intT (F : FloatOps) (diff : Nat) {σ : Store} {op : BinOp} {a b : SExpr} {val : Value}
+    (hs : IntStore σ) (hia : IntT a) (hib : IntT b) (h : evalS F diff σ (.binop op a b) = .ok val) :
+    ∃ x y, evalS F diff σ a = .ok (.int x) ∧ evalS F diff σ b = .ok (.int y) ∧ binopInt op x y = .ok val := by
+  obtain ⟨va, vb, hea, heb, hop⟩ := evalS_binop_inv h
+  obtain ⟨x, rfl⟩ := evalS_intT F diff σ hs hia hea
+  obtain ⟨y, rfl⟩ := evalS_intT F diff σ hs hib heb
+  exact ⟨x, y, hea, heb, hop⟩
+
+section stepT
+variable {F : FloatOps} {I : JIntrinsics} {db ab diff fuel : Nat} (ih : SoundT F I db ab diff fuel)
+include ih
+
+theorem setT_case {g lg : Nat} {t : Int} {mask : Nat} {v : VarRef} {e : SExpr} {code : List JStmt} {g' lg' : Nat} {s : JM}
+    {val : Value} (cx : CtxT F diff g mask t v e s val)
+    (h : lowerSetJ I db ab (fuel + 1) g lg t mask v e = .ok (code, g', lg')) : RunSet F diff g v s code val := by
+  simp only [lowerSetJ] at h
+  cases hsim : e.simple? with
+  | some a =>
+    simp only [hsim] at h
+    cases hat : lowerAssignAtom I.base mask v .set a with
+    | ok c =>
+      simp only [hat, liftAtom, Outcome.ok.injEq, Prod.mk.injEq] at h
+      obtain ⟨rfl, _, _⟩ := h
+      have hio := intOnly_of_simple cx.intT hsim
+      obtain ⟨hatom, hval, _⟩ := simple_spec F diff hio hsim
+      have hv := hval s.m.store cx.intStore
+      rw [cx.eval] at hv
+      simp only [Outcome.ok.injEq] at hv
+      obtain ⟨n, hn⟩ := evalS_intT F diff s.m.store cx.intStore cx.intT cx.eval
+      have hex := exec_setAtom F I.base diff mask v a c s.m cx.maskOn cx.intStore hatom hat
+      refine ⟨_, execFrag_liftJ F diff c s _ hex, ?_, ?_, rfl, rfl, ?_⟩
+      · simp [upd_same, hv]
+      · intro x hx _; exact upd_other _ _ hx
+      · show IntStore (upd s.m.store v.name (atomValue s.m.store a))
+        rw [← hv, hn]; exact intStore_upd cx.intStore _ _
+    | err x => simp [hat, liftAtom] at h
+    | panic x => simp [hat, liftAtom] at h
+  | none =>
+    simp only [hsim] at h
+    obtain ⟨ht1, ht2, ht3⟩ := intT_temp cx.intT
+    simp only [ht1, ht2, ht3, ne_eq, not_true_eq_false, ite_false] at h
+    cases e with
+    | binop op a b => exact ih.2.2.1 g lg t mask v op a b code g' lg' s val cx h
+    | unop op b => exact ih.2.2.2.1 g lg t mask v op b code g' lg' s val cx h
+    | ternary c l r => exact ih.2.2.2.2.1 g lg t mask v c l r code g' lg' s val cx h
+    | litI _ => simp [SExpr.simple?] at hsim
+    | var _ => simp [SExpr.simple?] at hsim
+    | litF _ => exact absurd cx.intT (by simp [IntT])
+    | switch _ => exact absurd cx.intT (by simp [IntT])
+    | omitted => exact absurd cx.intT (by simp [IntT])
+
+theorem operandT_case {g lg : Nat} {t : Int} {mask : Nat} {v : VarRef} {guard : Bool} {e : SExpr} {O : OperandJ} {s : JM}
+    {val : Value} (cx : CtxT F diff g mask t v e s val)
+    (h : lowerOperandJ I db ab (fuel + 1) g lg t mask v .int guard e = .ok O) : RunOp F diff g v guard e s O val := by
+  simp only [lowerOperandJ] at h
+  cases hsim : e.simple? with
+  | some a =>
+    simp only [hsim, Outcome.ok.injEq] at h
+    subst h
+    have hio := intOnly_of_simple cx.intT hsim
+    obtain ⟨hatom, hval, huse⟩ := simple_spec F diff hio hsim
+    have hv := hval s.m.store cx.intStore
+    rw [cx.eval] at hv
+    simp only [Outcome.ok.injEq] at hv
+    refine ⟨hatom, ⟨s, rfl, hv.symm, fun _ _ _ => rfl, rfl, rfl, cx.intStore⟩, ?_, ?_, ?_, intT_simpleTy cx.intT⟩
+    · intro y hy; exact uses_belowT cx.belowT (huse y hy)
+    · intro hy; exact Or.inr (huse _ hy)
+    · intro d hd; cases hd
+  | none =>
+    simp only [hsim] at h
+    obtain ⟨ht1, ht2, ht3⟩ := intT_temp cx.intT
+    simp only [ht1, ht2, ht3, true_and] at h
+    cases guard with
+    | true =>
+      simp only [if_true] at h
+      cases hl : lowerSetJ I db ab fuel g lg t mask v e with
+      | ok r =>
+        obtain ⟨c, g1, lg1⟩ := r
+        simp only [hl, Outcome.ok.injEq] at h
+        subst h
+        have hmono := ((shapeAt I db ab fuel).1 _ _ _ _ _ _ _ _ _ hl).1
+        obtain ⟨s', hex, hval, hframe, hlog, htime, hint⟩ := ih.1 g lg t mask v e c g1 lg1 s val cx hl
+        refine ⟨toArg_intAtom v, ⟨s', hex, by rw [atomValue_toArg]; exact hval, ?_, hlog, htime, hint⟩, ?_, ?_, ?_, rfl⟩
+        · intro x hx hor
+          cases hor with
+          | inl hne => exact hframe x hne hx
+          | inr hf => cases hf
+        · intro y hy
+          rw [argVar_toArg] at hy
+          simp only [Option.some.injEq] at hy; subst hy
+          exact below_mono hmono cx.vBelow
+        · intro _; exact Or.inl ⟨hsim, rfl⟩
+        · intro d hd; cases hd
+      | err x => simp [hl] at h
+      | panic x => simp [hl] at h
+    | false =>
+      simp only [Bool.false_eq_true, if_false] at h
+      cases hl : lowerSetJ I db ab fuel (g + 1) lg t mask (tmpVar g .int) e with
+      | ok r =>
+        obtain ⟨c, g1, lg1⟩ := r
+        simp only [hl, Outcome.ok.injEq] at h
+        subst h
+        have hmono := ((shapeAt I db ab fuel).1 _ _ _ _ _ _ _ _ _ hl).1
+        have cx' : CtxT F diff (g + 1) mask t (tmpVar g .int) e s val :=
+          ⟨cx.maskOn, rfl, Nat.lt_succ_self g, cx.intT, belowT_mono (Nat.le_succ g) cx.belowT, cx.intStore, cx.time, cx.eval⟩
+        obtain ⟨s', hex, hval, hframe, hlog, htime, hint⟩ := ih.1 (g + 1) lg t mask (tmpVar g .int) e c g1 lg1 s val cx' hl
+        refine ⟨.loc g, ⟨s', by rw [execFrag_alloc]; exact hex, hval, ?_, hlog, htime, hint⟩, ?_, ?_, ?_, rfl⟩
+        · intro x hx _
+          exact hframe x (ne_of_below hx) (below_mono (Nat.le_succ g) hx)
+        · intro y hy
+          simp only [argVar, Option.some.injEq] at hy; subst hy
+          exact Nat.lt_of_lt_of_le (Nat.lt_succ_self g) hmono
+        · intro hy
+          simp only [argVar, Option.some.injEq] at hy
+          exact absurd (hy ▸ cx.vBelow) (loc_not_below g)
+        · intro d _; rfl
+      | err x => simp [hl] at h
+      | panic x => simp [hl] at h
+
+theorem binopT_case {g lg : Nat} {t : Int} {mask : Nat} {v : VarRef} {op : BinOp} {a b : SExpr} {code : List JStmt} {g' lg' : Nat}
+    {s : JM} {val : Value} (cx : CtxT F diff g mask t v (.binop op a b) s val)
+    (h : lowerBinopJ I db ab (fuel + 1) g lg t mask v op a b = .ok (code, g', lg')) : RunSet F diff g v s code val := by
+  obtain ⟨hia, hib⟩ : IntT a ∧ IntT b := cx.intT
+  obtain ⟨hba, hbb⟩ : belowT g a ∧ belowT g b := cx.belowT
+  obtain ⟨va, vb, hea, heb, hop⟩ := evalS_binop_inv cx.eval
+  simp only [lowerBinopJ, intT_ty hia, binopTy_int] at h
+  cases hA : lowerOperandJ I db ab fuel g lg t mask v .int (!b.uses v.name) a with
+  | err x => simp [hA] at h
+  | panic x => simp [hA] at h
+  | ok A =>
+    simp only [hA] at h
+    have hmonoA := ((shapeAt I db ab fuel).2.1 _ _ _ _ _ _ _ _ _ hA).1
+    have cxa : CtxT F diff g mask t v a s va := ⟨cx.maskOn, cx.vInt, cx.vBelow, hia, hba, cx.intStore, cx.time, hea⟩
+    have SA := ih.2.1 g lg t mask v (!b.uses v.name) a A s va cxa hA
+    obtain ⟨s1, hex1, hval1, hframe1, hlog1, htime1, hint1⟩ := SA.run
+    have hb_same : evalS F diff s1.m.store b = .ok vb := by
+      rw [← heb]
+      apply evalS_congrT F diff _ _ hib
+      intro x hx
+      apply hframe1 x (uses_belowT hbb hx)
+      by_cases hxv : x = v.name
+      · subst hxv; right; simp [hx]
+      · left; exact hxv
+    generalize hau : operandUses a v.name A.free = aUsesV at h
+    cases hB : lowerOperandJ I db ab fuel A.gen A.lgen t mask v .int (!aUsesV) b with
+    | err x => simp [hB] at h
+    | panic x => simp [hB] at h
+    | ok B =>
+      simp only [hB] at h
+      have cxb : CtxT F diff A.gen mask t v b s1 vb :=
+        ⟨cx.maskOn, cx.vInt, below_mono hmonoA cx.vBelow, hib, belowT_mono hmonoA hbb, hint1, by rw [htime1]; exact cx.time, hb_same⟩
+      have SB := ih.2.1 A.gen A.lgen t mask v (!aUsesV) b B s1 vb cxb hB
+      obtain ⟨s2, hex2, hval2, hframe2, hlog2, htime2, hint2⟩ := SB.run
+      have hA_stable : atomValue s2.m.store A.atom = va := by
+        rw [← hval1]
+        apply atomValue_congr
+        intro y hy
+        apply hframe2 y (SA.atomBelow y hy)
+        by_cases hyv : y = v.name
+        · right
+          subst hyv
+          have : aUsesV = true := by
+            rw [← hau]
+            unfold operandUses
+            rcases SA.atomV hy with ⟨h1, h2⟩ | h1
+            · simp [h1, h2]
+            · cases hs : a.simple? with
+              | some _ => simpa using h1
+              | none =>
+                cases hf : A.free with
+                | none => rfl
+                | some d =>
+                  have := SA.freeAtom d hf
+                  rw [hy] at this
+                  simp only [Option.some.injEq] at this
+                  exact absurd (this ▸ cx.vBelow) (loc_not_below g)
+          simp [this]
+        · left; exact hyv
+      cases hC : lowerBinopAtom I.base mask v op A.ty A.atom B.atom with
+      | err x => simp [hC] at h
+      | panic x => simp [hC] at h
+      | ok c =>
+        simp only [hC, Outcome.ok.injEq, Prod.mk.injEq] at h
+        obtain ⟨rfl, _, _⟩ := h
+        have hr : binop F op (atomValue s2.m.store A.atom) (atomValue s2.m.store B.atom) = .ok val := by
+          rw [hA_stable, hval2]; exact hop
+        have hex3 := exec_binopAtom F I.base diff mask v op A.ty A.atom B.atom c s2.m val cx.maskOn hint2 SA.atom SB.atom hr hC
+        obtain ⟨n, hn⟩ := evalS_intT F diff s.m.store cx.intStore cx.intT cx.eval
+        refine ⟨⟨{ s2.m with store := upd s2.m.store v.name val }, s2.cmp⟩, ?_, ?_, ?_, ?_, ?_, ?_⟩
+        · exact execFrag_append_ok hex1 (execFrag_append_ok hex2 (execFrag_append_ok (execFrag_liftJ F diff c s2 _ hex3)
+            (execFrag_append_ok (execFrag_frees F diff B.free .fall _) (execFrag_frees F diff A.free .fall _))))
+        · exact upd_same _ _ _
+        · intro x hx hxb
+          show upd s2.m.store v.name val x = s.m.store x
+          rw [upd_other _ _ hx, hframe2 x (below_mono hmonoA hxb) (Or.inl hx), hframe1 x hxb (Or.inl hx)]
+        · show s2.m.log = s.m.log
+          rw [hlog2, hlog1]
+        · show s2.m.time = s.m.time
+          rw [htime2, htime1]
+        · show IntStore (upd s2.m.store v.name val)
+          rw [hn]; exact intStore_upd hint2 _ _
+
+theorem unopT_case {g lg : Nat} {t : Int} {mask : Nat} {v : VarRef} {op : UnOp} {b : SExpr} {code : List JStmt} {g' lg' : Nat}
+    {s : JM} {val : Value} (cx : CtxT F diff g mask t v (.unop op b) s val)
+    (h : lowerUnopJ I db ab (fuel + 1) g lg t mask v op b = .ok (code, g', lg')) : RunSet F diff g v s code val := by
+  obtain ⟨hopk, hib⟩ : (op = .neg ∨ op = .not ∨ op = .bnot) ∧ IntT b := cx.intT
+  have hbb : belowT g b := cx.belowT
+  obtain ⟨x, heb, hu⟩ := evalS_unop_inv hopk cx.eval
+  obtain ⟨nx, rfl⟩ := evalS_intT F diff s.m.store cx.intStore hib heb
+  have hty : unopTy op b.ty = .int := by
+    rw [intT_ty hib]; rcases hopk with rfl | rfl | rfl <;> rfl
+  simp only [lowerUnopJ, hty] at h
+  cases hB : lowerOperandJ I db ab fuel g lg t mask v .int true b with
+  | err e => simp [hB] at h
+  | panic e => simp [hB] at h
+  | ok B =>
+    simp only [hB] at h
+    have cxb : CtxT F diff g mask t v b s (.int nx) := ⟨cx.maskOn, cx.vInt, cx.vBelow, hib, hbb, cx.intStore, cx.time, heb⟩
+    have SB := ih.2.1 g lg t mask v true b B s (.int nx) cxb hB
+    obtain ⟨s1, hex1, hval1, hframe1, hlog1, htime1, hint1⟩ := SB.run
+    rw [SB.tyInt] at h
+    cases hC : lowerUnopAtom I.base mask v op .int B.atom with
+    | err e => simp [hC] at h
+    | panic e => simp [hC] at h
+    | ok c =>
+      simp only [hC, Outcome.ok.injEq, Prod.mk.injEq] at h
+      obtain ⟨rfl, _, _⟩ := h
+      have hex2 := exec_unopAtom F I.base diff mask v op B.atom c s1.m nx val cx.maskOn hint1 SB.atom hval1 hu hC
+      obtain ⟨n, hn⟩ := evalS_intT F diff s.m.store cx.intStore cx.intT cx.eval
+      refine ⟨⟨{ s1.m with store := upd s1.m.store v.name val }, s1.cmp⟩, ?_, ?_, ?_, ?_, ?_, ?_⟩
+      · exact execFrag_append_ok hex1 (execFrag_append_ok (execFrag_liftJ F diff c s1 _ hex2) (execFrag_frees F diff B.free .fall _))
+      · exact upd_same _ _ _
+      · intro y hy hyb
+        show upd s1.m.store v.name val y = s.m.store y
+        rw [upd_other _ _ hy, hframe1 y hyb (Or.inl hy)]
+      · exact hlog1
+      · exact htime1
+      · show IntStore (upd s1.m.store v.name val)
+        rw [hn]; exact intStore_upd hint1 _ _
+
+theorem tempT_case {g lg : Nat} {t : Int} {mask : Nat} {e : SExpr} {O : OperandJ} {s : JM} {val : Value}
+    (hm : maskOn mask diff = true) (hi : IntT e) (hb : belowT g e) (hs : IntStore s.m.store)
+    (hev : evalS F diff s.m.store e = .ok val) (ht : s.m.time = t)
+    (h : lowerTempJ I db ab (fuel + 1) g lg t mask e = .ok O) : RunTemp F diff g s O val := by
+  simp only [lowerTempJ] at h
+  cases hsim : e.simple? with
+  | some a =>
+    simp only [hsim, Outcome.ok.injEq] at h
+    subst h
+    have hio := intOnly_of_simple hi hsim
+    obtain ⟨hatom, hval, huse⟩ := simple_spec F diff hio hsim
+    have hv := hval s.m.store hs
+    rw [hev] at hv
+    simp only [Outcome.ok.injEq] at hv
+    exact ⟨hatom, intT_simpleTy hi, fun y hy => uses_belowT hb (huse y hy), ⟨s, rfl, hv.symm, fun _ _ => rfl, rfl, rfl, hs⟩⟩
+  | none =>
+    simp only [hsim] at h
+    obtain ⟨ht1, ht2, ht3⟩ := intT_temp hi
+    simp only [ht1, ht2, ht3] at h
+    cases hl : lowerSetJ I db ab fuel (g + 1) lg t mask (tmpVar g .int) e with
+    | err x => simp [hl] at h
+    | panic x => simp [hl] at h
+    | ok r =>
+      obtain ⟨c, g1, lg1⟩ := r
+      simp only [hl, Outcome.ok.injEq] at h
+      subst h
+      have hmono := ((shapeAt I db ab fuel).1 _ _ _ _ _ _ _ _ _ hl).1
+      obtain ⟨s', hex, hval, hframe, hlog, htime, hint⟩ := ih.1 (g + 1) lg t mask (tmpVar g .int) e c g1 lg1 s val
+        ⟨hm, rfl, Nat.lt_succ_self g, hi, belowT_mono (Nat.le_succ g) hb, hs, ht, hev⟩ hl
+      refine ⟨.loc g, rfl, ?_, ⟨s', by rw [execFrag_alloc]; exact hex, hval, ?_, hlog, htime, hint⟩⟩
+      · intro y hy
+        simp only [argVar, Option.some.injEq] at hy; subst hy
+        exact Nat.lt_of_lt_of_le (Nat.lt_succ_self g) hmono
+      · intro x hx
+        exact hframe x (ne_of_below hx) (below_mono (Nat.le_succ g) hx)
+
+theorem cmpT_case {g lg : Nat} {t : Int} {mask : Nat} {kw : Kw} {a : SExpr} {op : BinOp} {b : SExpr} {tgt : Goto}
+    {code : List JStmt} {g' lg' : Nat} {s : JM} {x y r : Int32}
+    (hm : maskOn mask diff = true) (hia : IntT a) (hib : IntT b) (hba : belowT g a) (hbb : belowT g b)
+    (hs : IntStore s.m.store) (hea : evalS F diff s.m.store a = .ok (.int x)) (heb : evalS F diff s.m.store b = .ok (.int y))
+    (hr : binopInt op x y = .ok (.int r)) (ht : s.m.time = t) (_htl : tgt.l < lg)
+    (h : lowerCmpJ I db ab (fuel + 1) g lg t mask kw a op b tgt = .ok (code, g', lg')) :
+    RunCond F diff g tgt (kw.takes (r != 0)) s code := by
+  simp only [lowerCmpJ] at h
+  cases hA : lowerTempJ I db ab fuel g lg t mask a with
+  | err e => simp [hA] at h
+  | panic e => simp [hA] at h
+  | ok A =>
+    simp only [hA] at h
+    have hmonoA := ((shapeAt I db ab fuel).2.2.2.2.2.2.2.1 _ _ _ _ _ _ hA).1
+    have SA := ih.2.2.2.2.2.2.1 g lg t mask a A s (.int x) hm hia hba hs hea ht hA
+    obtain ⟨s1, hex1, hval1, hframe1, hlog1, htime1, hint1⟩ := SA.run
+    have heb1 : evalS F diff s1.m.store b = .ok (.int y) := by
+      rw [← heb]; exact evalS_frameT F diff g hib hbb hframe1
+    cases hB : lowerTempJ I db ab fuel A.gen A.lgen t mask b with
+    | err e => simp [hB] at h
+    | panic e => simp [hB] at h
+    | ok B =>
+      simp only [hB] at h
+      have SB := ih.2.2.2.2.2.2.1 A.gen A.lgen t mask b B s1 (.int y) hm hib (belowT_mono hmonoA hbb) hint1 heb1
+        (by rw [htime1]; exact ht) hB
+      obtain ⟨s2, hex2, hval2, hframe2, hlog2, htime2, hint2⟩ := SB.run
+      have hA_stable : atomValue s2.m.store A.atom = .int x := by
+        rw [← hval1]
+        apply atomValue_congr
+        intro z hz
+        exact hframe2 z (SA.atomBelow z hz)
+      rw [SA.tyInt, SB.tyInt] at h
+      cases hC : condJmpAtom I mask kw op .int .int A.atom B.atom tgt with
+      | err e => simp [hC] at h
+      | panic e => simp [hC] at h
+      | ok c =>
+        simp only [hC, Outcome.ok.injEq, Prod.mk.injEq] at h
+        obtain ⟨rfl, _, _⟩ := h
+        obtain ⟨_, cmp', hex3⟩ := exec_condJmpAtom F I diff mask kw op A.atom B.atom tgt c s2 x y r
+          hm hint2 SA.atom SB.atom hA_stable hval2 hr hC
+        refine ⟨⟨s2.m, cmp'⟩, ?_, ?_, ?_, ?_, hint2⟩
+        · exact execFrag_append_ok hex1 (execFrag_append_ok hex2 (execFrag_append_ok hex3
+            (execFrag_append_ok (execFrag_frees F diff B.free _ _) (execFrag_frees F diff A.free _ _))))
+        · intro z hz
+          show s2.m.store z = s.m.store z
+          rw [hframe2 z (below_mono hmonoA hz)]; exact hframe1 z hz
+        · show s2.m.log = s.m.log
+          rw [hlog2]; exact hlog1
+        · show s2.m.time = s.m.time
+          rw [htime2]; exact htime1
+
+theorem condT_case {g lg : Nat} {t : Int} {mask : Nat} {kw : Kw} {e : SExpr} {tgt : Goto} {code : List JStmt} {g' lg' : Nat}
+    {s : JM} {n : Int32} (hm : maskOn mask diff = true) (hi : IntT e) (hb : belowT g e) (hs : IntStore s.m.store)
+    (hev : evalS F diff s.m.store e = .ok (.int n)) (ht : s.m.time = t) (htl : tgt.l < lg)
+    (h : lowerCondJ I db ab (fuel + 1) g lg t mask kw e tgt = .ok (code, g', lg')) :
+    RunCond F diff g tgt (kw.takes (n != 0)) s code := by
+  have hty := intT_ty hi
+  have fallback : lowerCmpJ I db ab fuel g lg t mask kw e .ne (.litI 0) tgt = .ok (code, g', lg') →
+      RunCond F diff g tgt (kw.takes (n != 0)) s code := by
+    intro h
+    have := ih.2.2.2.2.2.2.2.1 g lg t mask kw e .ne (.litI 0) tgt code g' lg' s n 0 (b2i (n != 0)) hm hi trivial hb trivial hs
+      hev rfl rfl ht htl h
+    rwa [b2i_ne_zero] at this
+  cases e with
+  | binop op a b =>
+    simp only [lowerCondJ] at h
+    obtain ⟨x, y, hea, heb, hop⟩ := evalS_binop_intT F diff hs hi.1 hi.2 hev
+    by_cases hc : isComparison op = true
+    · rw [if_pos hc] at h
+      exact ih.2.2.2.2.2.2.2.1 g lg t mask kw a op b tgt code g' lg' s x y n hm hi.1 hi.2 hb.1 hb.2 hs hea heb hop ht htl h
+    · rw [if_neg hc] at h
+      by_cases hl : op = .land ∨ op = .lor
+      · rw [if_pos hl] at h
+        exact ih.2.2.2.2.2.2.2.2 g lg t mask kw a op b tgt code g' lg' s x y n hm hi.1 hi.2 hb.1 hb.2 hs hea heb hl hop ht htl h
+      · rw [if_neg hl] at h
+        simp only [hty, ne_eq, not_true_eq_false, ite_false] at h
+        exact fallback h
+  | unop op b =>
+    rcases hi.1 with rfl | rfl | rfl
+    · simp only [lowerCondJ, hty, ne_eq, not_true_eq_false, ite_false] at h
+      exact fallback h
+    · simp only [lowerCondJ] at h
+      obtain ⟨x, heb, hu⟩ := evalS_unop_inv (Or.inr (Or.inl rfl)) hev
+      obtain ⟨nx, rfl⟩ := evalS_intT F diff s.m.store hs hi.2 heb
+      simp only [unop, Outcome.ok.injEq, Option.some.injEq, Value.int.injEq] at hu
+      subst hu
+      have := ih.2.2.2.2.2.1 g lg t mask kw.negate b tgt code g' lg' s nx hm hi.2 hb hs heb ht htl h
+      have hk : kw.negate.takes (nx != 0) = kw.takes (b2i (nx == 0) != 0) := by
+        cases kw <;> simp only [Kw.takes, Kw.negate, b2i_ne_zero] <;> simp [bne]
+      rwa [hk] at this
+    · simp only [lowerCondJ, hty, ne_eq, not_true_eq_false, ite_false] at h
+      exact fallback h
+  | litI k =>
+    simp only [lowerCondJ, hty, ne_eq, not_true_eq_false, ite_false] at h
+    exact fallback h
+  | var x =>
+    simp only [lowerCondJ, hty, ne_eq, not_true_eq_false, ite_false] at h
+    exact fallback h
+  | ternary c l r =>
+    simp only [lowerCondJ, hty, ne_eq, not_true_eq_false, ite_false] at h
+    exact fallback h
+  | litF _ => exact absurd hi (by simp [IntT])
+  | switch _ => exact absurd hi (by simp [IntT])
+  | omitted => exact absurd hi (by simp [IntT])
+
+theorem logicT_case {g lg : Nat} {t : Int} {mask : Nat} {kw : Kw} {a : SExpr} {op : BinOp} {b : SExpr} {tgt : Goto}
+    {code : List JStmt} {g' lg' : Nat} {s : JM} {va vb r : Int32}
+    (hm : maskOn mask diff = true) (hia : IntT a) (hib : IntT b) (hba : belowT g a) (hbb : belowT g b)
+    (hs : IntStore s.m.store) (hea : evalS F diff s.m.store a = .ok (.int va)) (heb : evalS F diff s.m.store b = .ok (.int vb))
+    (hop : op = .land ∨ op = .lor) (hr : binopInt op va vb = .ok (.int r)) (ht : s.m.time = t) (htl : tgt.l < lg)
+    (h : lowerLogicJ I db ab (fuel + 1) g lg t mask kw a op b tgt = .ok (code, g', lg')) :
+    RunCond F diff g tgt (kw.takes (r != 0)) s code := by
+  have hcond := ih.2.2.2.2.2.1
+  have hshape := (shapeAt I db ab fuel).2.2.2.2.2.2.1
+  simp only [lowerLogicJ] at h
+  by_cases heasy : (kw = .kif ∧ op = .lor) ∨ (kw = .kunless ∧ op = .land)
+  · rw [if_pos heasy] at h
+    unfold RunCond
+    rw [logic_easy kw op va vb r heasy hr]
+    cases h1 : lowerCondJ I db ab fuel g lg t mask kw a tgt with
+    | err x => simp [h1] at h
+    | panic x => simp [h1] at h
+    | ok r1 =>
+      obtain ⟨c1, g1, lg1⟩ := r1
+      simp only [h1] at h
+      obtain ⟨hg1, hl1, hsh1⟩ := hshape _ _ _ _ _ _ _ _ _ _ h1
+      obtain ⟨s1, hex1, hframe1, hlog1, htime1, hint1⟩ := hcond g lg t mask kw a tgt c1 g1 lg1 s va hm hia hba hs hea ht htl h1
+      have heb1 : evalS F diff s1.m.store b = .ok (.int vb) := by
+        rw [← heb]; exact evalS_frameT F diff g hib hbb hframe1
+      cases h2 : lowerCondJ I db ab fuel g1 lg1 t mask kw b tgt with
+      | err x => simp [h2] at h
+      | panic x => simp [h2] at h
+      | ok r2 =>
+        obtain ⟨c2, g2, lg2⟩ := r2
+        simp only [h2, Outcome.ok.injEq, Prod.mk.injEq] at h
+        obtain ⟨rfl, _, _⟩ := h
+        obtain ⟨hg2, hl2, hsh2⟩ := hshape _ _ _ _ _ _ _ _ _ _ h2
+        obtain ⟨s2, hex2, hframe2, hlog2, htime2, hint2⟩ := hcond g1 lg1 t mask kw b tgt c2 g2 lg2 s1 vb hm hib
+          (belowT_mono hg1 hbb) hint1 heb1 (by rw [htime1]; exact ht) (Nat.lt_of_lt_of_le htl hl1) h2
+        cases htk : kw.takes (va != 0) with
+        | true =>
+          rw [htk, exitIf_true] at hex1
+          refine ⟨s1, ?_, hframe1, hlog1, htime1, hint1⟩
+          simp only [Bool.true_or, exitIf_true]
+          refine execFrag_append_ok hex1 ?_
+          apply execFrag_seek_skip
+          intro l' hl' hEq
+          have := (hsh2.range l' hl').1
+          omega
+        | false =>
+          rw [htk, exitIf_false] at hex1
+          refine ⟨s2, ?_, ?_, by rw [hlog2, hlog1], by rw [htime2, htime1], hint2⟩
+          · simp only [Bool.false_or]
+            exact execFrag_append_ok hex1 hex2
+          · intro z hz; rw [hframe2 z (below_mono hg1 hz)]; exact hframe1 z hz
+  · rw [if_neg heasy] at h
+    unfold RunCond
+    rw [logic_hard kw op va vb r hop heasy hr]
+    cases h1 : lowerCondJ I db ab fuel g (lg + 1) t mask kw.negate a ⟨lg, none⟩ with
+    | err x => simp [h1] at h
+    | panic x => simp [h1] at h
+    | ok r1 =>
+      obtain ⟨c1, g1, lg1⟩ := r1
+      simp only [h1] at h
+      obtain ⟨hg1, hl1, hsh1⟩ := hshape _ _ _ _ _ _ _ _ _ _ h1
+      obtain ⟨s1, hex1, hframe1, hlog1, htime1, hint1⟩ := hcond g (lg + 1) t mask kw.negate a ⟨lg, none⟩ c1 g1 lg1 s va hm hia hba hs
+        hea ht (Nat.lt_succ_self lg) h1
+      have heb1 : evalS F diff s1.m.store b = .ok (.int vb) := by
+        rw [← heb]; exact evalS_frameT F diff g hib hbb hframe1
+      cases h2 : lowerCondJ I db ab fuel g1 lg1 t mask kw.negate b ⟨lg, none⟩ with
+      | err x => simp [h2] at h
+      | panic x => simp [h2] at h
+      | ok r2 =>
+        obtain ⟨c2, g2, lg2⟩ := r2
+        simp only [h2] at h
+        obtain ⟨hg2, hl2, hsh2⟩ := hshape _ _ _ _ _ _ _ _ _ _ h2
+        obtain ⟨s2, hex2, hframe2, hlog2, htime2, hint2⟩ := hcond g1 lg1 t mask kw.negate b ⟨lg, none⟩ c2 g2 lg2 s1 vb hm hib
+          (belowT_mono hg1 hbb) hint1 heb1 (by rw [htime1]; exact ht) (by show lg < lg1; omega) h2
+        cases hj : lowerJmp I mask tgt with
+        | err x => simp [hj] at h
+        | panic x => simp [hj] at h
+        | ok j =>
+          simp only [hj, Outcome.ok.injEq, Prod.mk.injEq] at h
+          obtain ⟨rfl, _, _⟩ := h
+          have hjeq := lowerJmp_ok hj
+          subst hjeq
+          have htail_seek : ∀ s0 : JM, execFrag F diff (.seek lg none) ([JStmt.jmp mask tgt.l tgt.time] ++ [JStmt.label t lg]) s0 =
+              .ok (.fall, s0.setTime t) := by
+            intro s0; simp [execFrag]
+          have htail_run : ∀ s0 : JM, execFrag F diff .run ([JStmt.jmp mask tgt.l tgt.time] ++ [JStmt.label t lg]) s0 =
+              .ok (.jump tgt.l tgt.time, s0) := by
+            intro s0
+            have hne : ¬ lg = tgt.l := by omega
+            simp [execFrag, stepJ, hm, hne]
+          have hc2_skip : ∀ s0 : JM, execFrag F diff (.seek lg none) c2 s0 = .ok (.jump lg none, s0) := by
+            intro s0
+            apply execFrag_seek_skip
+            intro l' hl' hEq
+            have := (hsh2.range l' hl').1
+            omega
+          cases htk1 : kw.negate.takes (va != 0) with
+          | true =>
+            rw [htk1, exitIf_true] at hex1
+            refine ⟨s1.setTime t, ?_, hframe1, hlog1, by rw [setTime_time]; exact ht.symm, hint1⟩
+            simp only [Bool.not_true, Bool.false_and, exitIf_false]
+            exact execFrag_append_ok hex1 (execFrag_append_ok (hc2_skip s1) (htail_seek s1))
+          | false =>
+            rw [htk1, exitIf_false] at hex1
+            cases htk2 : kw.negate.takes (vb != 0) with
+            | true =>
+              rw [htk2, exitIf_true] at hex2
+              refine ⟨s2.setTime t, ?_, ?_, by rw [setTime_log, hlog2, hlog1], by rw [setTime_time]; exact ht.symm, hint2⟩
+              · simp only [Bool.not_false, Bool.not_true, Bool.and_false, exitIf_false]
+                exact execFrag_append_ok hex1 (execFrag_append_ok hex2 (htail_seek s2))
+              · intro z hz
+                rw [setTime_store, hframe2 z (below_mono hg1 hz)]; exact hframe1 z hz
+            | false =>
+              rw [htk2, exitIf_false] at hex2
+              refine ⟨s2, ?_, ?_, by rw [hlog2, hlog1], by rw [htime2, htime1], hint2⟩
+              · simp only [Bool.not_false, Bool.and_self, exitIf_true]
+                exact execFrag_append_ok hex1 (execFrag_append_ok hex2 (htail_run s2))
+              · intro z hz
+                rw [hframe2 z (below_mono hg1 hz)]; exact hframe1 z hz
+
+theorem ternaryT_case {g lg : Nat} {t : Int} {mask : Nat} {v : VarRef} {c l r : SExpr} {code : List JStmt} {g' lg' : Nat}
+    {s : JM} {val : Value} (cx : CtxT F diff g mask t v (.ternary c l r) s val)
+    (h : lowerTernaryJ I db ab (fuel + 1) g lg t mask v c l r = .ok (code, g', lg')) : RunSet F diff g v s code val := by
+  obtain ⟨hic, hil, hir⟩ : IntT c ∧ IntT l ∧ IntT r := cx.intT
+  obtain ⟨hbc, hbl, hbr⟩ : belowT g c ∧ belowT g l ∧ belowT g r := cx.belowT
+  have hm := cx.maskOn
+  have ht := cx.time
+  have hset := ih.1
+  have hshapeS := (shapeAt I db ab fuel).1
+  simp only [lowerTernaryJ] at h
+  obtain ⟨vc, hevc, hevb⟩ := evalS_ternary_inv cx.eval
+  cases h1 : lowerCondJ I db ab fuel g (lg + 2) t mask .kunless c ⟨lg, none⟩ with
+  | err x => simp [h1] at h
+  | panic x => simp [h1] at h
+  | ok r1 =>
+    obtain ⟨c1, g1, lg1⟩ := r1
+    simp only [h1] at h
+    obtain ⟨hg1, hl1, hsh1⟩ := (shapeAt I db ab fuel).2.2.2.2.2.2.1 _ _ _ _ _ _ _ _ _ _ h1
+    obtain ⟨s1, hex1, hframe1, hlog1, htime1, hint1⟩ := ih.2.2.2.2.2.1 g (lg + 2) t mask .kunless c ⟨lg, none⟩ c1 g1 lg1 s vc hm hic hbc
+      cx.intStore hevc ht (by show lg < lg + 2; omega) h1
+    cases h2 : lowerSetJ I db ab fuel g1 lg1 t mask v l with
+    | err x => simp [h2] at h
+    | panic x => simp [h2] at h
+    | ok r2 =>
+      obtain ⟨c2, g2, lg2⟩ := r2
+      simp only [h2] at h
+      obtain ⟨hg2, hl2, hsh2⟩ := hshapeS _ _ _ _ _ _ _ _ _ h2
+      cases hj : lowerJmp I mask ⟨lg + 1, none⟩ with
+      | err x => simp [hj] at h
+      | panic x => simp [hj] at h
+      | ok j =>
+        have hjeq := lowerJmp_ok hj
+        subst hjeq
+        simp only [hj] at h
+        cases h3 : lowerSetJ I db ab fuel g2 lg2 t mask v r with
+        | err x => simp [h3] at h
+        | panic x => simp [h3] at h
+        | ok r3 =>
+          obtain ⟨c3, g3, lg3⟩ := r3
+          simp only [h3, Outcome.ok.injEq, Prod.mk.injEq] at h
+          obtain ⟨rfl, _, _⟩ := h
+          obtain ⟨hg3, hl3, hsh3⟩ := hshapeS _ _ _ _ _ _ _ _ _ h3
+          by_cases hz : vc = 0
+          · -- the condition is false: `unless` jumps to `false`, `v = r` runs
+            subst hz
+            simp only [if_true] at hevb
+            have htk : Kw.kunless.takes ((0 : Int32) != 0) = true := by decide
+            rw [htk, exitIf_true] at hex1
+            have hevr1 : evalS F diff s1.m.store r = .ok val := by
+              rw [← hevb]; exact evalS_frameT F diff g hir hbr hframe1
+            have hg12 : g ≤ g2 := Nat.le_trans hg1 hg2
+            obtain ⟨s3, hex3, hval3, hframe3, hlog3, htime3, hint3⟩ := hset g2 lg2 t mask v r c3 g3 lg3 (s1.setTime t) val
+              ⟨hm, cx.vInt, below_mono hg12 cx.vBelow, hir, belowT_mono hg12 hbr, hint1, rfl, hevr1⟩ h3
+            refine ⟨s3, ?_, hval3, ?_, by rw [hlog3]; exact hlog1, by rw [htime3]; exact ht.symm, hint3⟩
+            · refine execFrag_append_ok hex1 ?_
+              have hskip : execFrag F diff (.seek lg none) c2 s1 = .ok (.jump lg none, s1) :=
+                execFrag_seek_skip F diff lg none _ s1 (by intro l' hl' hEq; have := (hsh2.range l' hl').1; omega)
+              refine execFrag_append_ok hskip ?_
+              show execFrag F diff (.seek lg none) ([JStmt.jmp mask (lg + 1) none] ++
+                (JStmt.label t lg :: (c3 ++ [JStmt.label t (lg + 1)]))) s1 = _
+              simp only [List.cons_append, List.nil_append, execFrag, if_true, Option.getD_none]
+              refine execFrag_append_ok hex3 ?_
+              simp [modeOf, execFrag, stepJ]
+            · intro x hx hxb
+              rw [hframe3 x hx (below_mono hg12 hxb)]
+              exact hframe1 x hxb
+          · -- the condition is true: fall into `v = l`, then `goto end`
+            simp only [hz, if_false] at hevb
+            have htk : Kw.kunless.takes (vc != 0) = false := by simp [Kw.takes, bne, hz]
+            rw [htk, exitIf_false] at hex1
+            have hevl1 : evalS F diff s1.m.store l = .ok val := by
+              rw [← hevb]; exact evalS_frameT F diff g hil hbl hframe1
+            obtain ⟨s2, hex2, hval2, hframe2, hlog2, htime2, hint2⟩ := hset g1 lg1 t mask v l c2 g2 lg2 s1 val
+              ⟨hm, cx.vInt, below_mono hg1 cx.vBelow, hil, belowT_mono hg1 hbl, hint1, by rw [htime1]; exact ht, hevl1⟩ h2
+            refine ⟨s2.setTime t, ?_, hval2, ?_, by rw [setTime_log, hlog2]; exact hlog1, by rw [setTime_time]; exact ht.symm, hint2⟩
+            · refine execFrag_append_ok hex1 (execFrag_append_ok hex2 ?_)
+              have hne : ¬ lg = lg + 1 := by omega
+              have hskip : execFrag F diff (.seek (lg + 1) none) c3 s2 = .ok (.jump (lg + 1) none, s2) :=
+                execFrag_seek_skip F diff (lg + 1) none _ _ (by intro l' hl' hEq; have := (hsh3.range l' hl').1; omega)
+              show execFrag F diff .run ([JStmt.jmp mask (lg + 1) none] ++
+                (JStmt.label t lg :: (c3 ++ [JStmt.label t (lg + 1)]))) s2 = _
+              simp only [List.cons_append, List.nil_append, execFrag, stepJ, hm, Bool.not_true, Bool.false_eq_true, if_false, hne]
+              refine execFrag_append_ok hskip ?_
+              simp [modeOf, execFrag]
+            · intro x hx hxb
+              rw [setTime_store, hframe2 x hx (below_mono hg1 hxb)]
+              exact hframe1 x hxb
+
+end stepT
+
+
+/-- all nine functions are sound at every fuel -/
+theorem soundT (F : FloatOps) (I : JIntrinsics) (db ab diff : Nat) : ∀ fuel, SoundT F I db ab diff fuel
+  | 0 => by
+    refine ⟨?_, ?_, ?_, ?_, ?_, ?_, ?_, ?_, ?_⟩
+    · intro _ _ _ _ _ _ _ _ _ _ _ _ h; simp [lowerSetJ] at h
+    · intro _ _ _ _ _ _ _ _ _ _ _ h; simp [lowerOperandJ] at h
+    · intro _ _ _ _ _ _ _ _ _ _ _ _ _ _ h; simp [lowerBinopJ] at h
+    · intro _ _ _ _ _ _ _ _ _ _ _ _ _ h; simp [lowerUnopJ] at h
+    · intro _ _ _ _ _ _ _ _ _ _ _ _ _ _ h; simp [lowerTernaryJ] at h
+    · intro _ _ _ _ _ _ _ _ _ _ _ _ _ _ _ _ _ _ _ h; simp [lowerCondJ] at h
+    · intro _ _ _ _ _ _ _ _ _ _ _ _ _ _ h; simp [lowerTempJ] at h
+    · intros; rename_i h; simp [lowerCmpJ] at h
+    · intros; rename_i h; simp [lowerLogicJ] at h
+  | fuel + 1 => by
+    have ih := soundT F I db ab diff fuel
+    exact ⟨fun _ _ _ _ _ _ _ _ _ _ _ cx h => setT_case ih cx h,
+      fun _ _ _ _ _ _ _ _ _ _ cx h => operandT_case ih cx h,
+      fun _ _ _ _ _ _ _ _ _ _ _ _ _ cx h => binopT_case ih cx h,
+      fun _ _ _ _ _ _ _ _ _ _ _ _ cx h => unopT_case ih cx h,
+      fun _ _ _ _ _ _ _ _ _ _ _ _ _ cx h => ternaryT_case ih cx h,
+      fun _ _ _ _ _ _ _ _ _ _ _ _ hm hi hb hs hev ht htl h => condT_case ih hm hi hb hs hev ht htl h,
+      fun _ _ _ _ _ _ _ _ hm hi hb hs hev ht h => tempT_case ih hm hi hb hs hev ht h,
+      fun _ _ _ _ _ _ _ _ _ _ _ _ _ _ _ _ hm hia hib hba hbb hs hea heb hr ht htl h =>
+        cmpT_case ih hm hia hib hba hbb hs hea heb hr ht htl h,
+      fun _ _ _ _ _ _ _ _ _ _ _ _ _ _ _ _ hm hia hib hba hbb hs hea heb hop hr ht htl h =>
+        logicT_case ih hm hia hib hba hbb hs hea heb hop hr ht htl h⟩
+
+/-- **lowerSetT_sound**: `v = e` for every integer expression WITH ternaries at any depth (in operands, in conditions of
+ternaries, in branches), under every intrinsic table and fuel: the emitted fragment runs to its end without leaving,
+leaves `eval e` in `v` (only the branches the source selects have to evaluate), changes no other variable below the temp
+counter, logs nothing and keeps the time. -/
+theorem lowerSetT_sound (F : FloatOps) (I : JIntrinsics) (db ab diff fuel g lg : Nat) (t : Int) (mask : Nat) (v : VarRef) (e : SExpr)
+    (code : List JStmt) (g' lg' : Nat) (s : JM) (val : Value) (cx : CtxT F diff g mask t v e s val)
+    (h : lowerSetJ I db ab fuel g lg t mask v e = .ok (code, g', lg')) : RunSet F diff g v s code val :=
+  (soundT F I db ab diff fuel).1 g lg t mask v e code g' lg' s val cx h
+
+/-- **lowerCondT_sound**: `if|unless (e) goto L @ t` for every integer condition WITH ternaries at any depth in its
+operands: left by the jump iff the source jumps, nothing below the temp counter changed, nothing logged, time kept. -/
+theorem lowerCondT_sound (F : FloatOps) (I : JIntrinsics) (db ab diff fuel g lg : Nat) (t : Int) (mask : Nat) (kw : Kw) (e : SExpr)
+    (tgt : Goto) (code : List JStmt) (g' lg' : Nat) (s : JM) (n : Int32)
+    (hm : maskOn mask diff = true) (hi : IntT e) (hb : belowT g e) (hs : IntStore s.m.store)
+    (hev : evalS F diff s.m.store e = .ok (.int n)) (ht : s.m.time = t) (htl : tgt.l < lg)
+    (h : lowerCondJ I db ab fuel g lg t mask kw e tgt = .ok (code, g', lg')) :
+    RunCond F diff g tgt (kw.takes (n != 0)) s code :=
+  (soundT F I db ab diff fuel).2.2.2.2.2.1 g lg t mask kw e tgt code g' lg' s n hm hi hb hs hev ht htl h
+
+
+/-! ### statements over the extended fragment -/
+
+theorem evalArgs_congrT (F : FloatOps) (diff : Nat) (σ τ : Store) (g : Nat) :
+    ∀ (es : List SExpr), (∀ e ∈ es, IntT e) → (∀ e ∈ es, belowT g e) → (∀ x, below g x → σ x = τ x) →
+      evalArgs F diff σ es = evalArgs F diff τ es
+  | [], _, _, _ => rfl
+  | e :: es, hi, hb, h => by
+    have h1 : evalS F diff σ e = evalS F diff τ e := evalS_frameT F diff g (hi e (by simp)) (hb e (by simp)) h
+    have h2 := evalArgs_congrT F diff σ τ g es (fun e he => hi e (by simp [he])) (fun e he => hb e (by simp [he])) h
+    simp only [evalArgs, h1, h2]
+
+/-- `v = e` / `v op= e` over the extended fragment, executed as a fragment -/
+theorem lowerAssignT_sound (F : FloatOps) (I : JIntrinsics) (db ab diff g lg : Nat) (t : Int) (mask : Nat) (v : VarRef)
+    (op : AssignOp) (e : SExpr) (code : List JStmt) (g' lg' : Nat) (s : JM) (msrc : Machine)
+    (hm : maskOn mask diff = true) (hv : v.readTy = .int) (hvb : below g v.name) (hi : IntT e)
+    (hb : belowT g e) (hs : IntStore s.m.store) (ht : s.m.time = t)
+    (hsrc : runAssign F diff s.m v op e = .ok msrc)
+    (h : lowerAssignJ I db ab g lg t mask v op e = .ok (code, g', lg')) :
+    ∃ s', execFrag F diff .run code s = .ok (.fall, s') ∧ (∀ x, below g x → s'.m.store x = msrc.store x) ∧
+      s'.m.log = msrc.log ∧ s'.m.time = msrc.time ∧ IntStore s'.m.store := by
+  unfold runAssign at hsrc
+  cases hbop : op.binop with
+  | none =>
+    have hop : op = .set := by cases op <;> simp [AssignOp.binop] at hbop <;> rfl
+    subst hop
+    simp only [hbop] at hsrc
+    cases hev : evalS F diff s.m.store e with
+    | ok val =>
+      simp only [hev, Outcome.ok.injEq] at hsrc
+      subst hsrc
+      simp only [lowerAssignJ] at h
+      obtain ⟨s', hex, hval, hframe, hlog, htime, hint⟩ :=
+        lowerSetT_sound F I db ab diff _ g lg t mask v e code g' lg' s val ⟨hm, hv, hvb, hi, hb, hs, ht, hev⟩ h
+      refine ⟨s', hex, ?_, hlog, htime, hint⟩
+      intro x hx
+      by_cases hxv : x = v.name
+      · subst hxv; simp [upd_same, hval]
+      · simp [upd_other _ _ hxv, hframe x hxv hx]
+    | err c => simp [hev] at hsrc
+    | panic p => simp [hev] at hsrc
+  | some b =>
+    have hne : op ≠ .set := by intro hh; subst hh; simp [AssignOp.binop] at hbop
+    simp only [hbop, evalS_var F diff hs hv] at hsrc
+    cases hev : evalS F diff s.m.store e with
+    | err c => simp [hev] at hsrc
+    | panic p => simp [hev] at hsrc
+    | ok vb =>
+      simp only [hev] at hsrc
+      cases hr : binop F b (s.m.store v.name) vb with
+      | err c => simp [hr] at hsrc
+      | panic p => simp [hr] at hsrc
+      | ok r =>
+        simp only [hr, Outcome.ok.injEq] at hsrc
+        subst hsrc
+        obtain ⟨nv, hnv⟩ := hs v.name
+        obtain ⟨nb, rfl⟩ := evalS_intT F diff s.m.store hs hi hev
+        obtain ⟨nr, rfl⟩ : ∃ n, r = .int n := by rw [hnv] at hr; exact binop_int_result hr
+        have hl : lowerAssignJ I db ab g lg t mask v op e =
+            (match e.simple? with
+            | some a => liftAtom (lowerAssignAtom I.base mask v op a) g lg
+            | none =>
+              match lowerSetJ I db ab (jumpFuel e) (g + 1) lg t mask (tmpVar g e.temp.tmpTy) e.temp.tmpExpr with
+              | .ok (c1, g1, lg1) =>
+                match lowerAssignAtom I.base mask v op (.loc g e.temp.readTy) with
+                | .ok c2 => .ok (.base (.alloc g e.temp.tmpTy) :: c1 ++ liftCode c2 ++ [.base (.free g)], g1, lg1)
+                | .err x => .err x
+                | .panic x => .panic x
+              | .err x => .err x
+              | .panic x => .panic x) := by
+          cases op <;> first | exact absurd rfl hne | rfl
+        rw [hl] at h
+        cases hsim : e.simple? with
+        | some a =>
+          simp only [hsim] at h
+          cases hat : lowerAssignAtom I.base mask v op a with
+          | err x => simp [hat, liftAtom] at h
+          | panic x => simp [hat, liftAtom] at h
+          | ok c =>
+            simp only [hat, liftAtom, Outcome.ok.injEq, Prod.mk.injEq] at h
+            obtain ⟨rfl, rfl, rfl⟩ := h
+            obtain ⟨hatom, hval, _⟩ := simple_spec F diff (intOnly_of_simple hi hsim) hsim
+            have hva := hval s.m.store hs
+            rw [hev] at hva
+            simp only [Outcome.ok.injEq] at hva
+            rw [hva] at hr
+            have hex := exec_opAtom F I.base diff mask v op b a c s.m (.int nr) hbop hm hs hv hatom hr hat
+            exact ⟨_, execFrag_liftJ F diff c s _ hex, fun _ _ => rfl, rfl, rfl, intStore_upd hs _ _⟩
+        | none =>
+          simp only [hsim] at h
+          obtain ⟨ht1, ht2, ht3⟩ := intT_temp hi
+          simp only [ht1, ht2, ht3] at h
+          cases hl1 : lowerSetJ I db ab (jumpFuel e) (g + 1) lg t mask (tmpVar g .int) e with
+          | err x => simp [hl1] at h
+          | panic x => simp [hl1] at h
+          | ok p =>
+            obtain ⟨c1, g1, lg1⟩ := p
+            simp only [hl1] at h
+            cases hat : lowerAssignAtom I.base mask v op (.loc g .int) with
+            | err x => simp [hat] at h
+            | panic x => simp [hat] at h
+            | ok c2 =>
+              simp only [hat, Outcome.ok.injEq, Prod.mk.injEq] at h
+              obtain ⟨rfl, rfl, rfl⟩ := h
+              obtain ⟨s1, hex1, hval1, hframe1, hlog1, htime1, hint1⟩ :=
+                lowerSetT_sound F I db ab diff _ (g + 1) lg t mask (tmpVar g .int) e c1 g1 lg1 s (.int nb)
+                  ⟨hm, rfl, Nat.lt_succ_self g, hi, belowT_mono (Nat.le_succ g) hb, hs, ht, hev⟩ hl1
+              have hvsame : s1.m.store v.name = s.m.store v.name :=
+                hframe1 _ (ne_of_below hvb) (below_mono (Nat.le_succ g) hvb)
+              have hr1 : binop F b (s1.m.store v.name) (atomValue s1.m.store (.loc g .int)) = .ok (.int nr) := by
+                rw [hvsame]; simp only [atomValue]; rw [show s1.m.store (.loc g) = .int nb from hval1]; exact hr
+              have hex2 := exec_opAtom F I.base diff mask v op b (.loc g .int) c2 s1.m (.int nr) hbop hm hint1 hv (.loc g) hr1 hat
+              refine ⟨⟨{ s1.m with store := upd s1.m.store v.name (.int nr) }, s1.cmp⟩, ?_, ?_, hlog1, htime1, intStore_upd hint1 _ _⟩
+              · rw [List.cons_append, List.cons_append, execFrag_alloc, List.append_assoc]
+                refine execFrag_append_ok hex1 (execFrag_append_ok (execFrag_liftJ F diff c2 s1 _ hex2) ?_)
+                simp [modeOf, execFrag, stepJ, execStmt]
+              · intro x hx
+                show upd s1.m.store v.name (.int nr) x = upd s.m.store v.name (.int nr) x
+                by_cases hxv : x = v.name
+                · subst hxv; simp [upd_same]
+                · rw [upd_other _ _ hxv, upd_other _ _ hxv]
+                  exact hframe1 x (ne_of_below hx) (below_mono (Nat.le_succ g) hx)
+
+/-- arguments of a call over the extended fragment -/
+theorem lowerArgsT_sound (F : FloatOps) (I : JIntrinsics) (db ab diff : Nat) (t : Int) (mask : Nat) (hm : maskOn mask diff = true) :
+    ∀ (args : List SExpr) (g lg : Nat) (cJ : List JStmt) (as : List Arg) (ds : List Def) (g' lg' : Nat) (s : JM)
+      (vals : List Value),
+      (∀ e ∈ args, IntT e) → (∀ e ∈ args, belowT g e) → IntStore s.m.store → s.m.time = t →
+      evalArgs F diff s.m.store args = .ok vals →
+      lowerArgsJ I db ab t mask g lg args = .ok (cJ, as, ds, g', lg') →
+      ∃ s', execFrag F diff .run cJ s = .ok (.fall, s') ∧ readArgs F diff s'.m.store as = .ok vals ∧
+        (∀ x, below g x → s'.m.store x = s.m.store x) ∧ s'.m.log = s.m.log ∧ s'.m.time = s.m.time ∧ IntStore s'.m.store
+  | [], g, lg, cJ, as, ds, g', lg', s, vals, _, _, hs, _, hev, h => by
+    simp only [lowerArgsJ, Outcome.ok.injEq, Prod.mk.injEq] at h
+    obtain ⟨rfl, rfl, rfl, rfl, rfl⟩ := h
+    simp only [evalArgs, Outcome.ok.injEq] at hev
+    subst hev
+    exact ⟨s, rfl, rfl, fun _ _ => rfl, rfl, rfl, hs⟩
+  | e :: es, g, lg, cJ, as, ds, g', lg', s, vals, hi, hb, hs, ht, hev, h => by
+    obtain ⟨v, vs, rfl, hev1, hev2⟩ := evalArgs_cons_inv hev
+    have hie := hi e (by simp)
+    have hbe := hb e (by simp)
+    have hies : ∀ e' ∈ es, IntT e' := fun e' he => hi e' (by simp [he])
+    have hbes : ∀ e' ∈ es, belowT g e' := fun e' he => hb e' (by simp [he])
+    simp only [lowerArgsJ] at h
+    cases hsim : e.simple? with
+    | some a =>
+      simp only [hsim] at h
+      cases hrest : lowerArgsJ I db ab t mask g lg es with
+      | err x => simp [hrest] at h
+      | panic x => simp [hrest] at h
+      | ok r =>
+        obtain ⟨c', as', ds', g1, lg1⟩ := r
+        simp only [hrest, Outcome.ok.injEq, Prod.mk.injEq] at h
+        obtain ⟨rfl, rfl, rfl, rfl, rfl⟩ := h
+        obtain ⟨s', hex, hread, hframe, hlog, htime, hint⟩ :=
+          lowerArgsT_sound F I db ab diff t mask hm es g lg c' as' ds' g1 lg1 s vs hies hbes hs ht hev2 hrest
+        obtain ⟨hatom, hval, huse⟩ := simple_spec F diff (intOnly_of_simple hie hsim) hsim
+        have hva := hval s.m.store hs
+        rw [hev1] at hva
+        simp only [Outcome.ok.injEq] at hva
+        have hra : readArg F diff s'.m.store a = .ok v := by
+          rw [readArg_intAtom F diff hint hatom, hva]
+          congr 1
+          exact atomValue_congr (fun y hy => hframe y (uses_belowT hbe (huse y hy)))
+        exact ⟨s', hex, by simp only [readArgs, hra, hread], hframe, hlog, htime, hint⟩
+    | none =>
+      simp only [hsim] at h
+      obtain ⟨ht1, ht2, ht3⟩ := intT_temp hie
+      simp only [ht1, ht2, ht3] at h
+      cases hl1 : lowerSetJ I db ab (jumpFuel e) (g + 1) lg t mask (tmpVar g .int) e with
+      | err x => simp [hl1] at h
+      | panic x => simp [hl1] at h
+      | ok p =>
+        obtain ⟨c1, g1, lg1⟩ := p
+        simp only [hl1] at h
+        cases hrest : lowerArgsJ I db ab t mask g1 lg1 es with
+        | err x => simp [hrest] at h
+        | panic x => simp [hrest] at h
+        | ok r =>
+          obtain ⟨c', as', ds', g2, lg2⟩ := r
+          simp only [hrest, Outcome.ok.injEq, Prod.mk.injEq] at h
+          obtain ⟨rfl, rfl, rfl, rfl, rfl⟩ := h
+          have hmono1 := ((shapeAt I db ab _).1 _ _ _ _ _ _ _ _ _ hl1).1
+          obtain ⟨s1, hex1, hval1, hframe1, hlog1, htime1, hint1⟩ :=
+            lowerSetT_sound F I db ab diff _ (g + 1) lg t mask (tmpVar g .int) e c1 g1 lg1 s v
+              ⟨hm, rfl, Nat.lt_succ_self g, hie, belowT_mono (Nat.le_succ g) hbe, hs, ht, hev1⟩ hl1
+          have hg1 : g ≤ g1 := Nat.le_trans (Nat.le_succ g) hmono1
+          have hsame : ∀ x, below g x → s1.m.store x = s.m.store x :=
+            fun x hx => hframe1 x (ne_of_below hx) (below_mono (Nat.le_succ g) hx)
+          have hev2' : evalArgs F diff s1.m.store es = .ok vs := by
+            rw [evalArgs_congrT F diff s1.m.store s.m.store g es hies hbes hsame]; exact hev2
+          obtain ⟨s', hex2, hread, hframe2, hlog2, htime2, hint2⟩ :=
+            lowerArgsT_sound F I db ab diff t mask hm es g1 lg1 c' as' ds' g2 lg2 s1 vs hies
+              (fun e' he => belowT_mono hg1 (hbes e' he)) hint1 (by rw [htime1]; exact ht) hev2' hrest
+          have hkeep : s'.m.store (.loc g) = v := by
+            rw [hframe2 (.loc g) (Nat.lt_of_lt_of_le (Nat.lt_succ_self g) hmono1)]; exact hval1
+          have hra : readArg F diff s'.m.store (.loc g .int) = .ok v := by
+            rw [readArg_intAtom F diff hint2 (.loc g)]; simp only [atomValue, hkeep]
+          refine ⟨s', ?_, by simp only [readArgs, hra, hread], ?_, ?_, ?_, hint2⟩
+          · rw [List.cons_append, execFrag_alloc]; exact execFrag_append_ok hex1 hex2
+          · intro x hx; rw [hframe2 x (below_mono hg1 hx), hsame x hx]
+          · rw [hlog2, hlog1]
+          · rw [htime2, htime1]
+
+/-- an instruction call over the extended fragment -/
+theorem lowerCallT_sound (F : FloatOps) (I : JIntrinsics) (db ab diff g lg : Nat) (t : Int) (mask opcode : Nat)
+    (args : List SExpr) (code : List JStmt) (g' lg' : Nat) (s : JM) (msrc : Machine)
+    (hm : maskOn mask diff = true) (hi : ∀ e ∈ args, IntT e) (hb : ∀ e ∈ args, belowT g e)
+    (hs : IntStore s.m.store) (ht : s.m.time = t) (hsrc : runCall F diff s.m opcode args = .ok msrc)
+    (h : lowerCallJ I db ab g lg t mask opcode args = .ok (code, g', lg')) :
+    ∃ s', execFrag F diff .run code s = .ok (.fall, s') ∧ (∀ x, below g x → s'.m.store x = msrc.store x) ∧
+      s'.m.log = msrc.log ∧ s'.m.time = msrc.time ∧ IntStore s'.m.store := by
+  unfold runCall at hsrc
+  cases hev : evalArgs F diff s.m.store args with
+  | err c => simp [hev] at hsrc
+  | panic p => simp [hev] at hsrc
+  | ok vals =>
+    simp only [hev, Outcome.ok.injEq] at hsrc
+    subst hsrc
+    unfold lowerCallJ at h
+    cases hl : lowerArgsJ I db ab t mask g lg args with
+    | err x => simp [hl] at h
+    | panic x => simp [hl] at h
+    | ok r =>
+      obtain ⟨cJ, as, ds, g1, lg1⟩ := r
+      simp only [hl, Outcome.ok.injEq, Prod.mk.injEq] at h
+      obtain ⟨rfl, rfl, rfl⟩ := h
+      obtain ⟨s', hex, hread, hframe, hlog, htime, hint⟩ :=
+        lowerArgsT_sound F I db ab diff t mask hm args g lg cJ as ds g1 lg1 s vals hi hb hs ht hev hl
+      have hins : exec F diff s'.m ([.instr ⟨mask, .plain opcode, as⟩] ++ ds.reverse.map .free) =
+          .ok { s'.m with log := s'.m.log ++ [(opcode, vals)] } := by
+        refine exec_append_ok (m1 := { s'.m with log := s'.m.log ++ [(opcode, vals)] }) ?_ (exec_map_free F diff _ _)
+        simp [exec, execStmt, execInstr, hm, hread]
+      have hcode : cJ ++ [JStmt.base (.instr ⟨mask, .plain opcode, as⟩)] ++ liftCode (ds.reverse.map .free) =
+          cJ ++ liftCode ([.instr ⟨mask, .plain opcode, as⟩] ++ ds.reverse.map .free) := by
+        simp [liftCode]
+      rw [hcode]
+      refine ⟨⟨{ s'.m with log := s'.m.log ++ [(opcode, vals)] }, s'.cmp⟩, ?_, hframe, ?_, htime, hint⟩
+      · exact execFrag_append_ok hex (execFrag_liftJ F diff _ s' _ hins)
+      · show s'.m.log ++ [(opcode, vals)] = s.m.log ++ [(opcode, vals)]
+        rw [hlog]
+
+/-- the conditions of the extended fragment -/
+def CondOKT (g : Nat) : JCond → Prop
+  | .expr e => IntT e ∧ belowT g e
+  | .predec v _ => v.readTy = .int
+
+/-- `if|unless (c) goto L @ t` over the extended fragment -/
+theorem lowerCondGotoT_sound (F : FloatOps) (I : JIntrinsics) (db ab diff g lg : Nat) (t : Int) (mask : Nat) (kw : Kw)
+    (c : JCond) (tgt : Goto) (code : List JStmt) (g' lg' : Nat) (s : JM) (taken : Bool) (σ' : Store)
+    (hm : maskOn mask diff = true) (hc : CondOKT g c) (hs : IntStore s.m.store) (ht : s.m.time = t) (htl : tgt.l < lg)
+    (hsrc : evalCond F diff s.m.store c = .ok (taken, σ'))
+    (h : lowerCondGoto I db ab g lg t mask kw c tgt = .ok (code, g', lg')) :
+    ∃ s', execFrag F diff .run code s = .ok (exitIf (kw.takes taken) tgt, s') ∧
+      (∀ x, below g x → s'.m.store x = σ' x) ∧ s'.m.log = s.m.log ∧ s'.m.time = s.m.time ∧ IntStore s'.m.store := by
+  cases c with
+  | expr e =>
+    obtain ⟨hi, hb⟩ := hc
+    simp only [evalCond] at hsrc
+    cases hev : evalS F diff s.m.store e with
+    | err x => simp [hev] at hsrc
+    | panic x => simp [hev] at hsrc
+    | ok val =>
+      obtain ⟨v, rfl⟩ := evalS_intT F diff s.m.store hs hi hev
+      simp only [hev, Outcome.ok.injEq, Prod.mk.injEq] at hsrc
+      obtain ⟨rfl, rfl⟩ := hsrc
+      simp only [lowerCondGoto] at h
+      exact lowerCondT_sound F I db ab diff _ g lg t mask kw e tgt code g' lg' s v hm hi hb hs hev ht htl h
+  | predec v k =>
+    exact lowerCondGoto_sound_int F I db ab diff g lg t mask kw (.predec v k) tgt code g' lg' s taken σ' hm hc hs ht htl hsrc h
+
+
+/-! ### whole bodies over the extended fragment -/
+
+/-- the statements of the extended fragment: like `StmtOK`, with `IntT` expressions (ternaries anywhere) in right-hand
+sides (also of assign-ops), call arguments and conditions -/
+def StmtOKT (g0 : Nat) : JSStmt → Prop
+  | .base (.decl _ _ none) => True
+  | .base (.decl d ty (some e)) => ty = .int ∧ d < g0 ∧ IntT e ∧ belowT g0 e
+  | .base (.assign _ v e) => v.readTy = .int ∧ below g0 v.name ∧ IntT e ∧ belowT g0 e
+  | .base (.call _ args) => ∀ e ∈ args, IntT e ∧ belowT g0 e
+  | .base (.scopeEnd _) => True
+  | .base .other => False
+  | .label _ => True
+  | .goto _ => True
+  | .condGoto _ c _ => CondOKT g0 c ∧ ∀ v k, c = .predec v k → below g0 v.name
+  | .wait _ => True
+
+theorem rhsOK_intT {g0 : Nat} {op : AssignOp} {e : SExpr} (h : RhsOK g0 op e) : IntT e ∧ belowT g0 e := by
+  rcases h with ⟨hi, hb⟩ | ⟨_, c, l, r, rfl, ⟨hic, hil, hir⟩, ⟨hbc, hbl, hbr⟩⟩
+  · exact ⟨intT_of_intOnly hi, belowT_of_exprBelow hb⟩
+  · exact ⟨⟨intT_of_intOnly hic, intT_of_intOnly hil, intT_of_intOnly hir⟩,
+      ⟨belowT_of_exprBelow hbc, belowT_of_exprBelow hbl, belowT_of_exprBelow hbr⟩⟩
+
+/-- the extended fragment contains the fragment of `StmtOK` -/
+theorem stmtOKT_of_stmtOK {g0 : Nat} : ∀ {st : JSStmt}, StmtOK g0 st → StmtOKT g0 st
+  | .base (.decl _ _ none), _ => trivial
+  | .base (.decl _ _ (some _)), h => ⟨h.1, h.2.1, rhsOK_intT h.2.2⟩
+  | .base (.assign _ _ _), h => ⟨h.1, h.2.1, rhsOK_intT h.2.2⟩
+  | .base (.call _ _), h => fun e he => ⟨intT_of_intOnly (h e he).1, belowT_of_exprBelow (h e he).2⟩
+  | .base (.scopeEnd _), _ => trivial
+  | .base .other, h => h.elim
+  | .label _, _ => trivial
+  | .goto _, _ => trivial
+  | .condGoto _ (.expr _) _, h => ⟨⟨intT_of_intOnly h.1.1, belowT_of_exprBelow h.1.2⟩, h.2⟩
+  | .condGoto _ (.predec _ _) _, h => ⟨h.1, h.2⟩
+  | .wait _, _ => trivial
+
+theorem runAssign_congrT (F : FloatOps) (diff g0 : Nat) {a b b' : Machine} {v : VarRef} {op : AssignOp} {e : SExpr}
+    (hv : below g0 v.name) (hi : IntT e) (hb : belowT g0 e)
+    (hst : ∀ x, below g0 x → a.store x = b.store x) (hlog : a.log = b.log) (htime : a.time = b.time)
+    (h : runAssign F diff b v op e = .ok b') :
+    ∃ a', runAssign F diff a v op e = .ok a' ∧ (∀ x, below g0 x → a'.store x = b'.store x) ∧ a'.log = b'.log ∧
+      a'.time = b'.time := by
+  have he : evalS F diff a.store e = evalS F diff b.store e := evalS_frameT F diff g0 hi hb hst
+  have hv' : evalS F diff a.store (.var v) = evalS F diff b.store (.var v) := by simp only [evalS, hst v.name hv]
+  unfold runAssign at h ⊢
+  rw [he, hv']
+  cases hop : op.binop with
+  | none =>
+    simp only [hop] at h ⊢
+    cases hx : evalS F diff b.store e with
+    | ok x =>
+      simp only [hx, Outcome.ok.injEq] at h ⊢
+      subst h
+      exact ⟨_, rfl, upd_agree hst _ _, hlog, htime⟩
+    | err c => simp [hx] at h
+    | panic p => simp [hx] at h
+  | some bop =>
+    simp only [hop] at h ⊢
+    cases hy : evalS F diff b.store (.var v) with
+    | ok va =>
+      cases hx : evalS F diff b.store e with
+      | ok vb =>
+        simp only [hx, hy] at h ⊢
+        cases hr : binop F bop va vb with
+        | ok r =>
+          simp only [hr, Outcome.ok.injEq] at h ⊢
+          subst h
+          exact ⟨_, rfl, upd_agree hst _ _, hlog, htime⟩
+        | err c => simp [hr] at h
+        | panic p => simp [hr] at h
+      | err c => simp [hx, hy] at h
+      | panic p => simp [hx, hy] at h
+    | err c => cases hx : evalS F diff b.store e <;> simp [hx, hy] at h
+    | panic p => cases hx : evalS F diff b.store e <;> simp [hx, hy] at h
+
+theorem runCall_congrT (F : FloatOps) (diff g0 : Nat) {a b b' : Machine} {opcode : Nat} {args : List SExpr}
+    (hi : ∀ e ∈ args, IntT e) (hb : ∀ e ∈ args, belowT g0 e)
+    (hst : ∀ x, below g0 x → a.store x = b.store x) (hlog : a.log = b.log) (htime : a.time = b.time)
+    (h : runCall F diff b opcode args = .ok b') :
+    ∃ a', runCall F diff a opcode args = .ok a' ∧ (∀ x, below g0 x → a'.store x = b'.store x) ∧ a'.log = b'.log ∧
+      a'.time = b'.time := by
+  have he := evalArgs_congrT F diff a.store b.store g0 args hi hb hst
+  unfold runCall at h ⊢
+  rw [he]
+  cases hx : evalArgs F diff b.store args with
+  | ok vs =>
+    simp only [hx, Outcome.ok.injEq] at h ⊢
+    subst h
+    exact ⟨_, rfl, hst, by simp [hlog], htime⟩
+  | err c => simp [hx] at h
+  | panic p => simp [hx] at h
+
+theorem evalCond_congrT (F : FloatOps) (diff g0 : Nat) {σ τ τ' : Store} {c : JCond} {taken : Bool}
+    (hc : CondOKT g0 c) (hcv : ∀ v k, c = .predec v k → below g0 v.name)
+    (hst : ∀ x, below g0 x → σ x = τ x) (h : evalCond F diff τ c = .ok (taken, τ')) :
+    ∃ σ', evalCond F diff σ c = .ok (taken, σ') ∧ ∀ x, below g0 x → σ' x = τ' x := by
+  cases c with
+  | expr e =>
+    obtain ⟨hi, hb⟩ := hc
+    have he : evalS F diff σ e = evalS F diff τ e := evalS_frameT F diff g0 hi hb hst
+    simp only [evalCond] at h ⊢
+    rw [he]
+    repeat' split at h
+    all_goals first
+      | (cases h; done)
+      | (simp only [Outcome.ok.injEq, Prod.mk.injEq] at h; obtain ⟨rfl, rfl⟩ := h; exact ⟨σ, rfl, hst⟩)
+  | predec v k => exact evalCond_congr F diff g0 (c := .predec v k) hc hcv hst h
+
+/-- **stmtSim_intT**: every statement of the extended fragment is simulated by its fragment -/
+theorem stmtSim_intT (F : FloatOps) (I : JIntrinsics) (db ab diff mask g0 lg0 : Nat) (hm : maskOn mask diff = true)
+    {st : JSStmt} (hok : StmtOKT g0 st) (htl : ∀ tg, jumpOfS st = some tg → tg.l < lg0)
+    {g lg : Nat} {t : Int} {code : List JStmt} {g' lg' : Nat} (hg : g0 ≤ g) (hlg : lg0 ≤ lg)
+    (h : lowerStmtJ I db ab g lg t mask st = .ok (code, g', lg')) :
+    StmtSim F diff (below g0) IntStore st t code := by
+  intro j m m' fl hinv htj hst hlog htm hrun
+  have assign_case : ∀ (v : VarRef) (op : AssignOp) (e : SExpr) (c : List JStmt) (g1 lg1 : Nat) (m1 : Machine),
+      v.readTy = .int → below g0 v.name → IntT e → belowT g0 e →
+      lowerAssignJ I db ab g lg t mask v op e = .ok (c, g1, lg1) → runAssign F diff m v op e = .ok m1 →
+      ∃ j', execFrag F diff .run c j = .ok (.fall, j') ∧ IntStore j'.m.store ∧
+        (∀ x, below g0 x → j'.m.store x = m1.store x) ∧ j'.m.log = m1.log ∧ j'.m.time = t := by
+    intro v op e c g1 lg1 m1 hv hvb hi hb hl hr
+    obtain ⟨a', hra, hsta, hloga, htimea⟩ := runAssign_congrT F diff g0 hvb hi hb hst hlog (by rw [htj, htm]) hr
+    have hm1t : m1.time = t := by rw [runAssign_time hr, htm]
+    obtain ⟨s', hex, hst1, hlog1, htime1, hint1⟩ :=
+      lowerAssignT_sound F I db ab diff g lg t mask v op e c g1 lg1 j a' hm hv (below_mono hg hvb) hi (belowT_mono hg hb) hinv htj hra hl
+    refine ⟨s', hex, hint1, ?_, by rw [hlog1, hloga], by rw [htime1, htimea, hm1t]⟩
+    intro x hx
+    rw [hst1 x (below_mono hg hx)]; exact hsta x hx
+  cases st with
+  | base s =>
+    simp only [runStmtJ] at hrun
+    cases hs : runStmtS F diff m s with
+    | err x => simp [hs] at hrun
+    | panic x => simp [hs] at hrun
+    | ok m1 =>
+      simp only [hs, Outcome.ok.injEq, Prod.mk.injEq] at hrun
+      obtain ⟨rfl, rfl⟩ := hrun
+      cases s with
+      | decl d ty init =>
+        cases init with
+        | none =>
+          simp only [lowerStmtJ, Outcome.ok.injEq, Prod.mk.injEq] at h
+          obtain ⟨rfl, _, _⟩ := h
+          simp only [runStmtS, Outcome.ok.injEq] at hs
+          subst hs
+          exact ⟨j, by simp [execFrag, stepJ, execStmt, Lower.exitOf], hinv, hst, hlog, htj⟩
+        | some e =>
+          obtain ⟨rfl, hd, hi, hb⟩ := hok
+          simp only [lowerStmtJ] at h
+          cases h1 : lowerAssignJ I db ab g lg t mask ⟨.loc d, none, .int⟩ .set e with
+          | err x => simp [h1] at h
+          | panic x => simp [h1] at h
+          | ok r =>
+            obtain ⟨c, g1, lg1⟩ := r
+            simp only [h1, Outcome.ok.injEq, Prod.mk.injEq] at h
+            obtain ⟨rfl, _, _⟩ := h
+            simp only [runStmtS] at hs
+            obtain ⟨j', hex, h2, h3, h4, h5⟩ := assign_case ⟨.loc d, none, .int⟩ .set e c g1 lg1 m1 rfl hd hi hb h1 hs
+            exact ⟨j', by simpa [execFrag, stepJ, execStmt, Lower.exitOf] using hex, h2, h3, h4, h5⟩
+      | assign op v e =>
+        obtain ⟨hv, hvb, hi, hb⟩ := hok
+        simp only [lowerStmtJ] at h
+        simp only [runStmtS] at hs
+        exact assign_case v op e code g' lg' m1 hv hvb hi hb h hs
+      | call opcode args =>
+        have hi : ∀ e ∈ args, IntT e := fun e he => (hok e he).1
+        have hb : ∀ e ∈ args, belowT g0 e := fun e he => (hok e he).2
+        simp only [lowerStmtJ] at h
+        simp only [runStmtS] at hs
+        obtain ⟨a', hra, hsta, hloga, htimea⟩ := runCall_congrT F diff g0 hi hb hst hlog (by rw [htj, htm]) hs
+        obtain ⟨s', hex, hst2, hlog2, htime2, hint2⟩ :=
+          lowerCallT_sound F I db ab diff g lg t mask opcode args code g' lg' j a' hm hi (fun e he => belowT_mono hg (hb e he)) hinv htj hra h
+        refine ⟨s', hex, hint2, ?_, by rw [hlog2, hloga], ?_⟩
+        · intro x hx; rw [hst2 x (below_mono hg hx)]; exact hsta x hx
+        · have : m1.time = m.time := by
+            simp only [runCall] at hs
+            split at hs
+            · simp only [Outcome.ok.injEq] at hs; subst hs; rfl
+            · cases hs
+            · cases hs
+          rw [htime2, htimea, this, htm]
+      | scopeEnd d =>
+        simp only [lowerStmtJ, Outcome.ok.injEq, Prod.mk.injEq] at h
+        obtain ⟨rfl, _, _⟩ := h
+        simp only [runStmtS, Outcome.ok.injEq] at hs
+        subst hs
+        exact ⟨j, by simp [execFrag, stepJ, execStmt, Lower.exitOf], hinv, hst, hlog, htj⟩
+      | other => exact hok.elim
+  | label l =>
+    simp only [lowerStmtJ, Outcome.ok.injEq, Prod.mk.injEq] at h
+    obtain ⟨rfl, _, _⟩ := h
+    simp only [runStmtJ, Outcome.ok.injEq, Prod.mk.injEq] at hrun
+    obtain ⟨rfl, rfl⟩ := hrun
+    exact ⟨j, by simp [execFrag, stepJ, Lower.exitOf], hinv, hst, hlog, htj⟩
+  | goto tg =>
+    simp only [lowerStmtJ] at h
+    cases hj : lowerJmp I mask tg with
+    | err x => simp [hj] at h
+    | panic x => simp [hj] at h
+    | ok c =>
+      have := lowerJmp_ok hj
+      subst this
+      simp only [hj, Outcome.ok.injEq, Prod.mk.injEq] at h
+      obtain ⟨rfl, _, _⟩ := h
+      simp only [runStmtJ, Outcome.ok.injEq, Prod.mk.injEq] at hrun
+      obtain ⟨rfl, rfl⟩ := hrun
+      exact ⟨j, by simp [execFrag, stepJ, hm, Lower.exitOf], hinv, hst, hlog, htj⟩
+  | condGoto kw c tg =>
+    obtain ⟨hc, hcv⟩ := hok
+    simp only [lowerStmtJ] at h
+    simp only [runStmtJ] at hrun
+    cases hev : evalCond F diff m.store c with
+    | err x => simp [hev] at hrun
+    | panic x => simp [hev] at hrun
+    | ok r =>
+      obtain ⟨taken, τ'⟩ := r
+      simp only [hev, Outcome.ok.injEq, Prod.mk.injEq] at hrun
+      obtain ⟨rfl, rfl⟩ := hrun
+      obtain ⟨σ', hevj, hσ⟩ := evalCond_congrT F diff g0 hc hcv hst hev
+      have htl' : tg.l < lg := Nat.lt_of_lt_of_le (htl tg rfl) hlg
+      have hcg : CondOKT g c := by
+        cases c with
+        | expr e => exact ⟨hc.1, belowT_mono hg hc.2⟩
+        | predec v k => exact hc
+      obtain ⟨s', hex, hst', hlog', htime', hint'⟩ :=
+        lowerCondGotoT_sound F I db ab diff g lg t mask kw c tg code g' lg' j taken σ' hm hcg hinv htj htl' hevj h
+      refine ⟨s', by rw [exitOf_if]; exact hex, hint', ?_, by rw [hlog']; exact hlog, by rw [htime', htj]⟩
+      intro x hx
+      rw [hst' x (below_mono hg hx)]; exact hσ x hx
+  | wait n =>
+    simp only [lowerStmtJ, Outcome.ok.injEq, Prod.mk.injEq] at h
+    obtain ⟨rfl, _, _⟩ := h
+    simp only [runStmtJ, Outcome.ok.injEq, Prod.mk.injEq] at hrun
+    obtain ⟨rfl, rfl⟩ := hrun
+    exact ⟨j, by simp [execFrag, Lower.exitOf], hinv, hst, hlog, htj⟩
+
+/-- **lowerBodyT_sound**: `lowerBody_sound` for the extended fragment `StmtOKT` - integer expressions with ternaries at
+any depth in right-hand sides (of `=` and of every assign-op), call arguments, declarations and conditions -/
+theorem lowerBodyT_sound (F : FloatOps) (I : JIntrinsics) (db ab diff mask g0 lg0 : Nat) (t0 : Int) (body : List JSStmt)
+    (P : List (Int × JStmt)) (hm : maskOn mask diff = true) (hok : ∀ st ∈ body, StmtOKT g0 st) (wf : BodyWF lg0 t0 body)
+    (hL : lowerBodyJ I db ab mask g0 lg0 t0 body = .ok P)
+    (S0 : VM) (U0 : TVM) (hinit : SimRel (below g0) IntStore (timeAt t0 body 0) S0 U0)
+    (fuel : Nat) (Sf : VM) (hrun : runJS F diff (stampBody t0 body) fuel 0 S0 = .ok Sf) :
+    ∃ fuel' Uf, execT F diff P fuel' 0 U0 = .ok Uf ∧ SimRel (below g0) IntStore (endTime t0 body) Sf Uf := by
+  have hsim : BodySim F diff (below g0) IntStore I db ab mask g0 lg0 body := by
+    intro st hst g lg t code g' lg' hg hlg h
+    exact stmtSim_intT F I db ab diff mask g0 lg0 hm (hok st hst) (fun tg htg => wf.targetsLt st hst tg htg) hg hlg h
+  obtain ⟨Uf, hreach, hR⟩ := body_sim hL wf hsim fuel 0 S0 U0 Sf hrun hinit
+  have h0 : fragPos I db ab mask g0 lg0 t0 body 0 = 0 := by cases body <;> rfl
+  rw [h0] at hreach
+  obtain ⟨fuel', hf⟩ := execT_of_reachT hreach
+  exact ⟨fuel', Uf, hf, hR⟩
+
+/-- **lowerBodyT_diverges**: divergence is preserved for the extended fragment -/
+theorem lowerBodyT_diverges (F : FloatOps) (I : JIntrinsics) (db ab diff mask g0 lg0 : Nat) (t0 : Int) (body : List JSStmt)
+    (P : List (Int × JStmt)) (hm : maskOn mask diff = true) (hok : ∀ st ∈ body, StmtOKT g0 st) (wf : BodyWF lg0 t0 body)
+    (hL : lowerBodyJ I db ab mask g0 lg0 t0 body = .ok P)
+    (S0 : VM) (U0 : TVM) (hinit : SimRel (below g0) IntStore (timeAt t0 body 0) S0 U0)
+    (hdiv : ∀ n, ∃ j pc S, StepsS F diff (stampBody t0 body) n j 0 S0 pc S) :
+    ∀ fuel, execT F diff P fuel 0 U0 = .panic "out of fuel" := by
+  have hsim : BodySim F diff (below g0) IntStore I db ab mask g0 lg0 body := by
+    intro st hst g lg t code g' lg' hg hlg h
+    exact stmtSim_intT F I db ab diff mask g0 lg0 hm (hok st hst) (fun tg htg => wf.targetsLt st hst tg htg) hg hlg h
+  intro fuel
+  obtain ⟨c, pc, U, hc, hr⟩ := body_diverges hL wf hsim S0 U0 hinit hdiv fuel
+  exact execT_fuel_of_reachTn hr fuel hc
+
+/-! ### the extended fragment is inhabited by a body the old fragment does not contain -/
+
+/-- `A = (B < (A > 3 ? A : 5) ? A + (B ? 1 : 2) : 0) * 2; if ((A ? B : 3) == 7) goto lab0; ins_200(A ? B + 1 : 0); lab0:` -/
+def ternBody : List JSStmt :=
+  [.base (.assign .set rA (.binop .mul
+      (.ternary (.binop .lt (.var rB) (.ternary (.binop .gt (.var rA) (.litI 3)) (.var rA) (.litI 5)))
+        (.binop .add (.var rA) (.ternary (.var rB) (.litI 1) (.litI 2))) (.litI 0)) (.litI 2))),
+   .condGoto .kif (.expr (.binop .eq (.ternary (.var rA) (.var rB) (.litI 3)) (.litI 7))) ⟨0, none⟩,
+   .base (.call 200 [.ternary (.var rA) (.binop .add (.var rB) (.litI 1)) (.litI 0)]),
+   .label 0]
+
+theorem ternBody_ok : ∀ st ∈ ternBody, StmtOKT 100 st := by
+  intro st hst
+  simp only [ternBody, List.mem_cons, List.not_mem_nil, or_false] at hst
+  rcases hst with rfl | rfl | rfl | rfl
+  · exact ⟨rfl, trivial, by simp [IntT, rA, rB, VarRef.readTy], by simp [belowT, below, rA, rB]⟩
+  · exact ⟨⟨by simp [IntT, rA, rB, VarRef.readTy], by simp [belowT, below, rA, rB]⟩, fun v k h => by cases h⟩
+  · intro e he
+    simp only [List.mem_cons, List.not_mem_nil, or_false] at he
+    subst he
+    exact ⟨by simp [IntT, rA, rB, VarRef.readTy], by simp [belowT, below, rA, rB]⟩
+  · trivial
+
+
+theorem ternBody_lowers : bodyLen (lowerBodyJ jTwoPart 255 0 255 100 1000 0 ternBody) = some 48 := by decide +kernel
+
+theorem ternBody_runs : runLog (runJS someFloats 0 (stampBody 0 ternBody) 10 0 ⟨⟨fun _ => .int 7, [], 0⟩, 0, []⟩) =
+    some ([(200, [.int 0])], [0], 0, 0) := by decide +kernel
+
+/-- `lowerBodyT_sound` applied: the compiled body (48 statements, nested labels) logs `ins_200(0)` at real time 0 -/
+example : ∃ P fuel' Uf, lowerBodyJ jTwoPart 255 0 255 100 1000 0 ternBody = .ok P ∧
+    execT someFloats 0 P fuel' 0 ⟨⟨⟨fun _ => .int 7, [], 0⟩, 0, []⟩, none⟩ = .ok Uf ∧
+    Uf.vm.m.log = [(200, [.int 0])] ∧ Uf.vm.stamps = [0] ∧ Uf.vm.m.store (.reg 1000) = .int 0 := by
+  cases hL : lowerBodyJ jTwoPart 255 0 255 100 1000 0 ternBody with
+  | err x => have := ternBody_lowers; rw [hL] at this; cases this
+  | panic x => have := ternBody_lowers; rw [hL] at this; cases this
+  | ok P =>
+    cases hr : runJS someFloats 0 (stampBody 0 ternBody) 10 0 ⟨⟨fun _ => .int 7, [], 0⟩, 0, []⟩ with
+    | err x => have := ternBody_runs; rw [hr] at this; cases this
+    | panic x => have := ternBody_runs; rw [hr] at this; cases this
+    | ok Sf =>
+      have hrun := ternBody_runs
+      rw [hr] at hrun
+      simp only [runLog, Option.some.injEq, Prod.mk.injEq] at hrun
+      have hwf : BodyWF 1000 0 ternBody :=
+        ⟨by decide, by decide,
+         by intro st hst g hg; simp only [ternBody, List.mem_cons, List.not_mem_nil, or_false] at hst
+            rcases hst with rfl | rfl | rfl | rfl <;> simp [jumpOfS] at hg
+            subst hg; decide,
+         by intro n hn; simp [ternBody] at hn,
+         by intro st hst g x hg hx; simp only [ternBody, List.mem_cons, List.not_mem_nil, or_false] at hst
+            rcases hst with rfl | rfl | rfl | rfl <;> simp [jumpOfS] at hg
+            subst hg; simp at hx⟩
+      obtain ⟨fuel', Uf, hf, hR⟩ := lowerBodyT_sound someFloats jTwoPart 255 0 0 255 100 1000 0 ternBody P (by decide) ternBody_ok hwf hL
+        _ _ (simRel_init 100 _ (fun _ => .int 7) (fun _ => ⟨7, rfl⟩) (by decide)) 10 Sf hr
+      have hA : Sf.m.store (.reg 1000) = .int 0 := by
+        have : (match runJS someFloats 0 (stampBody 0 ternBody) 10 0 ⟨⟨fun _ => .int 7, [], 0⟩, 0, []⟩ with
+          | .ok s => s.m.store (.reg 1000) | _ => .int 1) = .int 0 := by decide +kernel
+        rw [hr] at this; exact this
+      exact ⟨P, fuel', Uf, rfl, hf, by rw [hR.log, hrun.1], by rw [hR.stamps, hrun.2.1], by rw [hR.store (.reg 1000) trivial, hA]⟩
+
 
 end TruthModel.C02
